@@ -1,65 +1,2341 @@
-"""C09: the scheduling-relevant shapes of replicat/repository.py, read from the AST.
+"""C09: the scheduling-relevant facts of replicat/repository.py, computed from the AST by small abstract interpreters.
 
-* `Repository.__init__`: the slot queue is filled with `range(base, concurrent + base)` → `slotBase`, `slotCountIsConcurrent`.
-* `_acquire_slot` / `_acquire_slot_threadsafe`: `slot = …get…; try: yield slot; finally: …put_nowait(slot)` → `slotReleaseInFinally`.
-* the transfer wrappers (`_exists`, `_download`, `_upload_data`, `_delete` and their `_threadsafe` twins), snapshot's `upload_stream`
-  and restore's `download_stream` sit inside a `with self._acquire_slot…` → `transfersUnderSlot`.
-* `snapshot._worker`: the loop test, translated as a Boolean function of (queue empty, producer done) → `workerContinues`.
-* `snapshot`: `try: await gather(workers) / except: abort.set(); raise / finally: await chunk_producer` → `abortOnWorkerFailure`;
-  `_chunk_producer` tests `abort.is_set()` (and returns) before it queues a chunk → `producerStopsOnAbort`; the put itself is a
-  `while True:` loop of *timed / non-blocking* attempts (`put(chunk, timeout=…)`, `put(chunk, block=False)`, `put_nowait`) with
-  that abort test inside the loop, `queue.Full` swallowed, `break` on success → `producerRechecksWhileFull` (a producer that
-  waits on a full queue still sees the flag).  A single blocking `put(chunk)` gives `false`.
-* `restore._write_chunk_ref`: `with glock: (get | create + refcount = 1 | refcount += 1)`, `with flock: write`,
-  `with glock: refcount -= 1; if not refcount: del` → `flockShapeRecognised`, `flockDelAtZero`.
-* `restore._download_chunk`: all writer futures are awaited before the finalisation loop → `loaderJoinsWritersFirst`; the digest is
-  removed and the metadata popped under `glock` → `removeUnderGlock`, `popUnderGlock`.
-* waits with a finite time-out (`….result(t)`, `….wait(t)`, `wait_for(…, t)`, `asyncio.timeout(t)`, `…(…, timeout=t)` with `t` not
-  `None`) anywhere in repository.py.  A wait that is *retried* — it sits in a `while` loop whose handler for the time-out exception
-  neither raises, returns nor breaks (the producer's `put`), or it is the loop's test — is an unbounded wait with a periodic
-  wake-up.  A wait that is not retried makes the outcome depend on how long something took: in the two slot context managers →
-  `slotWaitBounded` (+ `slotWaitTimeoutMs`, 0 when the value is not a literal / module constant), elsewhere →
-  `unmodelledTimedWaits` (the model has no transition for them; `timed_waits_covered` demands the list to be empty).
-  The slot shape itself (`slotReleaseInFinally`) tolerates statements between the request and the `try: yield slot`.
-Anything else than the recognised shapes yields `false` (or an `opaque`); the theorems of Properties/C09.lean that discharge the flag
-by `decide` then stop compiling.
+Nothing here keys on the name of a local variable, a private attribute or a private / nested function.  The objects the facts speak
+about are found by what they ARE and what is DONE with them:
+
+* the slot queue      = the `self.<attr>` that `Repository.__init__` fills with `range(lo, hi)` (`put_nowait` in a loop);
+* the slot managers   = the generator methods that take a value out of that queue;
+* producer / worker   = the nested function of `snapshot` handed to `run_in_executor` / `submit`; the nested coroutine(s) gathered;
+* abort flag, chunk queue, producer future = the `threading.Event`, `queue.Queue`, executor future created once in `snapshot`
+  (the queue is the one the producer puts into, the flag the one the failure handler sets);
+* loader / writer     = the nested function of `restore` handed to `run_in_executor`, and the one it submits to an executor;
+* registry lock, lock table, ref-count table, pending sets, metadata table = `threading.Lock()` / `{}` created once in `restore`,
+  told apart by use (what is stored into them, what is removed from them).
+
+A path-enumerating interpreter (`_Machine`) executes the statements of the function under analysis: `if` / `while` / `for` / `try` /
+`with` / `return` / `break` / `continue`, conditional and Boolean expressions, walrus, locals (aliases, hoisted values, flags),
+calls to nested functions, `self.` methods and module functions are followed (inlined, ≤ 4 deep, arguments bound to parameters).
+A *domain* gives meaning to the primitive operations of one question and records events together with the locks held:
+
+* `_ProducerDom`  (`producerStopsOnAbort`, `producerRechecksWhileFull`): events `A+`/`A-` (abort flag tested: set / clear), `P+`/`PF`
+  (put succeeded / raised `queue.Full`) per chunk.  *stops*: every put attempt is preceded by a fresh `A-`, `A+` leaves the
+  producer without a put.  *rechecks*: additionally the put is bounded (time-out / non-blocking), after `PF` the flag is tested
+  again before anything else happens to the chunk, the chunk is never dropped nor queued twice.  A blocking `put(chunk)` ⇒ false.
+* `_FlockDom`  (`flockShapeRecognised`, `flockDelAtZero`): the writer is run symbolically from "key absent" and from "key present
+  with count c ≥ 1": all table accesses under the one registry lock; at the write exactly the file's lock (the table's current
+  entry) is held and the count is start + 1; afterwards the count is back, and the entries are deleted when it reached zero
+  (`flockShapeRecognised`) and only then (`flockDelAtZero`).
+* `_LoaderDom`  (`loaderJoinsWritersFirst`, `removeUnderGlock`, `popUnderGlock`, `decisionInsideRemoveBlock`): every submitted
+  writer future is joined before the first removal from a pending set; removal and `pop` happen with the registry lock held; the
+  `pop` is reached only on paths where the emptiness of that very set was evaluated after the removal, inside the same critical
+  section (same acquisition of the lock).
+
+Static (lexical, but name-free) parts: `slotBase`, `slotCount`, `slotCountIsConcurrent` (range bounds as linear forms in
+`concurrent`), `slotReleaseInFinally` (one request, `try: yield` the value, the give-back in `finally`), `transfersUnderSlot` (every
+`self.backend.<transfer>` reference is inside `with <slot manager>` — or held in a local used only there, or in a function called
+only from there), `workerContinues` (loop test → Boolean term over *queue empty* / *producer done*, through helper functions and
+`while True: if …: break`), `abortOnWorkerFailure`, `restoreJoinsLoadersOnFailure`, and the finite waits
+(`slotWaitBounded`, `slotWaitTimeoutMs`, `unmodelledTimedWaits`; unchanged in substance).
+
+Soundness: whatever the interpreters do not understand at a place that matters (a primitive inside a lambda, a generator helper,
+an unknown comparison of the count, too many paths …) raises `_Unknown` ⇒ the fact is `false` (or `opaque`) and the theorems of
+Properties/C09.lean that discharge it by `decide` stop compiling.  Never a guessed `true`.
 """
 import ast
+import itertools
 
 
-def _bool_expr(ctx, node):
-    """Boolean expression over the two atoms of the worker's loop test → Lean term; raises ValueError otherwise."""
+class _Unknown(Exception):
+    pass
+
+
+_FUNCS = (ast.FunctionDef, ast.AsyncFunctionDef)
+_LOGGING_ROOTS = {'logger', 'logging', 'log', 'print', 'warnings'}
+
+
+# ---------------------------------------------------------------------------------------------------------------- AST utilities
+def _walk_local(node):
+    """ast.walk that does not descend into nested function / class definitions and lambdas (the root itself is always yielded)"""
+    todo = [node]
+    while todo:
+        n = todo.pop()
+        yield n
+        for ch in ast.iter_child_nodes(n):
+            if not isinstance(ch, _FUNCS + (ast.ClassDef, ast.Lambda)):
+                todo.append(ch)
+
+
+def _body_walk(fn):
+    """all nodes of the body of function `fn`, nested definitions excluded"""
+    for st in fn.body:
+        if isinstance(st, _FUNCS + (ast.ClassDef,)):
+            continue
+        yield from _walk_local(st)
+
+
+def _nested_defs(fn):
+    return {st.name: st for st in _body_walk_defs(fn)}
+
+
+def _body_walk_defs(fn):
+    """function definitions directly nested in `fn` (at any block depth, not inside other functions)"""
+    todo = list(fn.body)
+    while todo:
+        n = todo.pop()
+        if isinstance(n, _FUNCS):
+            yield n
+            continue
+        if isinstance(n, (ast.ClassDef, ast.Lambda)):
+            continue
+        todo.extend(ch for ch in ast.iter_child_nodes(n) if isinstance(ch, (ast.stmt, ast.ExceptHandler)))
+
+
+def _is_generator(fn):
+    return any(isinstance(n, (ast.Yield, ast.YieldFrom)) for n in _body_walk(fn))
+
+
+def _call_name(node):
+    """last component of the callee of a Call (`a.b.c(…)` → 'c'), or None"""
+    if not isinstance(node, ast.Call):
+        return None
+    f = node.func
+    return f.attr if isinstance(f, ast.Attribute) else (f.id if isinstance(f, ast.Name) else None)
+
+
+def _root_name(node):
+    while isinstance(node, (ast.Attribute, ast.Subscript, ast.Call)):
+        node = node.func if isinstance(node, ast.Call) else node.value
+    return node.id if isinstance(node, ast.Name) else None
+
+
+def _self_attr(node):
+    """'self.x' for the AST of `self.x`, else None"""
+    if isinstance(node, ast.Attribute) and isinstance(node.value, ast.Name) and node.value.id == 'self':
+        return 'self.' + node.attr
+    return None
+
+
+def _assign_targets(node):
+    if isinstance(node, ast.Assign):
+        return node.targets
+    if isinstance(node, (ast.AugAssign, ast.AnnAssign, ast.NamedExpr)):
+        return [node.target]
+    return []
+
+
+def _bound_names(fn):
+    """name → list of value nodes (None when bound by something that is not a plain `name = value`) over the body of `fn`"""
+    out = {}
+
+    def bind(t, v):
+        if isinstance(t, ast.Name):
+            out.setdefault(t.id, []).append(v)
+        elif isinstance(t, (ast.Tuple, ast.List)):
+            for e in t.elts:
+                bind(e, None)
+        elif isinstance(t, ast.Starred):
+            bind(t.value, None)
+    for n in _body_walk(fn):
+        if isinstance(n, ast.Assign):
+            for t in n.targets:
+                bind(t, n.value)
+        elif isinstance(n, ast.AnnAssign):
+            bind(n.target, n.value)
+        elif isinstance(n, ast.NamedExpr):
+            bind(n.target, n.value)
+        elif isinstance(n, ast.AugAssign):
+            bind(n.target, None)
+        elif isinstance(n, (ast.For, ast.AsyncFor)):
+            bind(n.target, None)
+        elif isinstance(n, (ast.With, ast.AsyncWith)):
+            for i in n.items:
+                if i.optional_vars is not None:
+                    bind(i.optional_vars, None)
+        elif isinstance(n, ast.ExceptHandler) and n.name:
+            out.setdefault(n.name, []).append(None)
+        elif isinstance(n, ast.comprehension):
+            pass
+    return out
+
+
+_KIND_BY_CTOR = {
+    'Event': 'event', 'Lock': 'lock', 'RLock': 'lock',
+    'Queue': 'queue', 'LifoQueue': 'queue', 'PriorityQueue': 'queue', 'SimpleQueue': 'queue',
+    'ThreadPoolExecutor': 'executor',
+    'dict': 'dict', 'defaultdict': 'dict', 'OrderedDict': 'dict', 'Counter': 'dict',
+    'set': 'set', 'list': 'list',
+}
+
+
+def _classify(value):
+    """kind of the object a creation expression makes (None: not one of the kinds the analyses care about)"""
+    if isinstance(value, ast.Dict) and not value.keys:
+        return 'dict'
+    if isinstance(value, ast.Call):
+        nm = _call_name(value)
+        if nm in _KIND_BY_CTOR:
+            if nm in ('dict', 'set', 'list', 'OrderedDict') and (value.args or value.keywords):
+                return None
+            return _KIND_BY_CTOR[nm]
+        if nm in ('run_in_executor', 'submit'):
+            return 'future'
+    return None
+
+
+def _dict_default(value):
+    """'int' for defaultdict(int) / Counter(): a missing key reads as 0"""
+    if isinstance(value, ast.Call):
+        nm = _call_name(value)
+        if nm == 'Counter' and not value.args:
+            return 'int'
+        if nm == 'defaultdict' and len(value.args) == 1 and isinstance(value.args[0], ast.Name) and value.args[0].id == 'int':
+            return 'int'
+    return None
+
+
+# ---------------------------------------------------------------------------------------------------------------- values
+# abstract values: None (unknown), ('const', python constant), ('obj', kind, name)  — an object created once in an enclosing scope,
+# ('fn', FunctionDef, is_method), ('sym', n) — an unknown but named value (aliases share it), ('not', v), domain values (tuples).
+_sym_counter = itertools.count(1)
+
+
+def _fresh(tag='sym'):
+    return (tag, next(_sym_counter))
+
+
+class _St:
+    """one path of the interpreter"""
+    __slots__ = ('env', 'trace', 'held', 'data', 'choices', 'steps', 'depth', 'stack')
+
+    def __init__(self):
+        self.env, self.trace, self.held, self.data = {}, (), (), {}
+        self.choices = self.steps = self.depth = 0
+        self.stack = ()
+
+    def fork(self):
+        s = _St()
+        s.env, s.trace, s.held, s.data = dict(self.env), self.trace, self.held, dict(self.data)
+        s.choices, s.steps, s.depth, s.stack = self.choices, self.steps, self.depth, self.stack
+        return s
+
+    def ev(self, *e):
+        self.trace = self.trace + (e,)
+        return self
+
+
+class _Dom:
+    """default domain: no primitive operations"""
+    max_paths = 4000
+    max_steps = 60
+    site_calls = ()          # attribute / function names whose calls matter to this domain (must not be skipped over)
+
+    def prim(self, m, node, st):
+        return None
+
+    def call(self, m, node, fval, recv, args, kwargs, st):
+        return None
+
+    def store(self, m, target, value, st):
+        return None
+
+    def aug(self, m, node, st):
+        return None
+
+    def delete(self, m, target, st):
+        return None
+
+    def enter(self, m, value, st):
+        return None            # → token pushed on st.held (or None)
+
+    def decide(self, m, v, st):
+        return None
+
+    def matches(self, m, type_node, kind, st):
+        """does `except <type_node>` catch the abstract exception `kind`?"""
+        if type_node is None:
+            return True
+        names = [type_node] if not isinstance(type_node, ast.Tuple) else type_node.elts
+        for n in names:
+            txt = ast.unparse(n)
+            if txt.split('.')[-1] in (kind, 'Exception', 'BaseException'):
+                return True
+        return False
+
+    def bind_for(self, m, itervalue, st):
+        return None
+
+    def comp(self, m, node, st):
+        return None
+
+    def single(self, node):
+        """execute this loop's body exactly once (the per-item loop of the function under analysis)"""
+        return False
+
+    def loop_end(self, node, sig, st):
+        pass
+
+    def is_site(self, node):
+        return isinstance(node, ast.Call) and _call_name(node) in self.site_calls
+
+    danger_calls = None      # the sites whose omission could make a fact come out true (default: all of site_calls)
+
+    def is_danger(self, node):
+        if self.danger_calls is None:
+            return self.is_site(node)
+        return isinstance(node, ast.Call) and _call_name(node) in self.danger_calls
+
+
+class _Machine:
+    """Path-enumerating abstract interpreter.  `exec_block` → [(signal, state)], signal ∈ 'next' | 'break' | 'continue' |
+    ('return', value) | ('exc', kind) | 'cut' (path abandoned: budget).  `eval` → [(kind, value, state)], kind ∈ 'val' | 'exc' | 'cut'."""
+
+    def __init__(self, dom, funcs_env):
+        self.dom = dom
+        self.funcs_env = funcs_env        # name / 'self.name' → ('fn', node, is_method): callable helpers
+        self.paths = 0
+        self._reach_cache = {}
+
+    # ------------------------------------------------------------------ does this sub-tree matter to the domain?
+    def reaches(self, node, pred, tag, depth=0, seen=()):
+        """is a node satisfying `pred` below `node`, or in the body of a helper called (≤ 4 levels) from below `node`?"""
+        key = (id(node), tag)
+        if depth == 0 and key in self._reach_cache:
+            return self._reach_cache[key]
+        r = False
+        for n in ast.walk(node):
+            if pred(n):
+                r = True
+                break
+            if isinstance(n, ast.Call) and depth < 4:
+                fv = self.static_callee(n.func)
+                if fv is not None and fv[1] not in seen and fv[1] is not node:
+                    if any(self.reaches(st, pred, tag, depth + 1, seen + (fv[1],)) for st in fv[1].body):
+                        r = True
+                        break
+        if depth == 0:
+            self._reach_cache[key] = r
+        return r
+
+    def reaches_site(self, node):
+        return self.reaches(node, self.dom.is_site, 'site')
+
+    def sites(self, node, pred, depth=0, seen=()):
+        """the nodes satisfying `pred` below `node` and in the helpers called from there"""
+        out = []
+        for n in ast.walk(node):
+            if pred(n):
+                out.append(n)
+            if isinstance(n, ast.Call) and depth < 4:
+                fv = self.static_callee(n.func)
+                if fv is not None and fv[1] not in seen and fv[1] is not node:
+                    for st in fv[1].body:
+                        out.extend(self.sites(st, pred, depth + 1, seen + (fv[1],)))
+        uniq = []
+        for n in out:
+            if not any(n is u for u in uniq):
+                uniq.append(n)
+        return uniq
+
+    def peek(self, node, st):
+        """value of a plain name / `self.attr` (no effects), else None"""
+        if isinstance(node, ast.Name):
+            return st.env[node.id] if node.id in st.env else self.funcs_env.get(node.id)
+        k = _self_attr(node)
+        if k is not None:
+            return st.env[k] if k in st.env else self.funcs_env.get(k)
+        return None
+
+    def static_callee(self, func):
+        if isinstance(func, ast.Name):
+            return self.funcs_env.get(func.id)
+        k = _self_attr(func)
+        return self.funcs_env.get(k) if k else None
+
+    def skip(self, node):
+        """a sub-tree the interpreter does not execute must not contain anything the domain cares about"""
+        if self.reaches(node, self.dom.is_danger, 'danger'):
+            raise _Unknown('primitive inside ' + type(node).__name__)
+
+    def tick(self):
+        self.paths += 1
+        if self.paths > self.dom.max_paths:
+            raise _Unknown('too many paths')
+
+    # ------------------------------------------------------------------ branching
+    def decide(self, v, st):
+        """→ [(bool, state)]"""
+        if isinstance(v, tuple):
+            if v[0] == 'const':
+                return [(bool(v[1]), st)]
+            if v[0] == 'not':
+                return [(not b, s) for b, s in self.decide(v[1], st)]
+            if v[0] in ('obj', 'fn'):
+                return [(True, st)]
+            r = self.dom.decide(self, v, st)
+            if r is not None:
+                return r
+            if v[0] == 'sym':
+                dec = st.data.get('dec', ())
+                for k, b in dec:
+                    if k == v:
+                        return [(b, st)]
+                out = []
+                for b in (True, False):
+                    s = st.fork()
+                    s.data['dec'] = dec + ((v, b),)
+                    out.append((b, s))
+                self.tick()
+                return out
+        self.tick()
+        return [(True, st), (False, st.fork())]
+
+    # ------------------------------------------------------------------ expressions
+    def eval_seq(self, nodes, st):
+        """evaluate expressions left to right → [(kind, [values], state)]"""
+        outs = [('val', [], st)]
+        for n in nodes:
+            nxt = []
+            for kind, vals, s in outs:
+                if kind != 'val':
+                    nxt.append((kind, vals, s))
+                    continue
+                for k2, v2, s2 in self.eval(n, s):
+                    nxt.append((k2, vals + [v2], s2) if k2 == 'val' else (k2, v2, s2))
+            outs = nxt
+        return outs
+
+    def eval(self, node, st):
+        r = self.dom.prim(self, node, st)
+        if r is not None:
+            return r
+        t = type(node)
+        if t is ast.Constant:
+            return [('val', ('const', node.value), st)]
+        if t is ast.Name:
+            if node.id in st.env:
+                return [('val', st.env[node.id], st)]
+            return [('val', self.funcs_env.get(node.id), st)]
+        if t is ast.Attribute:
+            k = _self_attr(node)
+            if k is not None:
+                if k in st.env:
+                    return [('val', st.env[k], st)]
+                return [('val', self.funcs_env.get(k), st)]
+            return [(kd, None if kd == 'val' else v, s) for kd, v, s in self.eval(node.value, st)]
+        if t is ast.NamedExpr:
+            out = []
+            for kd, v, s in self.eval(node.value, st):
+                if kd == 'val':
+                    if v is None:
+                        v = _fresh()
+                    s.env[node.target.id] = v
+                out.append((kd, v, s))
+            return out
+        if t is ast.UnaryOp and isinstance(node.op, ast.Not):
+            out = []
+            for kd, v, s in self.eval(node.operand, st):
+                if kd != 'val':
+                    out.append((kd, v, s))
+                elif isinstance(v, tuple) and v[0] == 'const':
+                    out.append(('val', ('const', not v[1]), s))
+                elif v is None:
+                    out.append(('val', None, s))
+                else:
+                    out.append(('val', ('not', v), s))
+            return out
+        if t is ast.BoolOp:
+            is_and = isinstance(node.op, ast.And)
+            outs = []
+
+            def go(i, s):
+                for kd, v, s2 in self.eval(node.values[i], s):
+                    if kd != 'val':
+                        outs.append((kd, v, s2))
+                        continue
+                    if i == len(node.values) - 1:
+                        outs.append(('val', v, s2))
+                        continue
+                    for b, s3 in self.decide(v, s2):
+                        if b == is_and:
+                            go(i + 1, s3)
+                        else:
+                            outs.append(('val', ('const', b), s3))
+            go(0, st)
+            return outs
+        if t is ast.IfExp:
+            outs = []
+            for kd, v, s in self.eval(node.test, st):
+                if kd != 'val':
+                    outs.append((kd, v, s))
+                    continue
+                for b, s2 in self.decide(v, s):
+                    outs.extend(self.eval(node.body if b else node.orelse, s2))
+            return outs
+        if t is ast.Compare:
+            outs = []
+            for kd, vals, s in self.eval_seq([node.left] + node.comparators, st):
+                if kd != 'val':
+                    outs.append((kd, vals, s))
+                    continue
+                res = None
+                if len(node.ops) == 1 and all(isinstance(v, tuple) and v[0] == 'const' for v in vals):
+                    a, b = vals[0][1], vals[1][1]
+                    try:
+                        res = {ast.Eq: lambda: a == b, ast.NotEq: lambda: a != b, ast.Is: lambda: a is b, ast.IsNot: lambda: a is not b,
+                               ast.Lt: lambda: a < b, ast.LtE: lambda: a <= b, ast.Gt: lambda: a > b, ast.GtE: lambda: a >= b}[type(node.ops[0])]()
+                        res = ('const', bool(res))
+                    except Exception:  # noqa: BLE001
+                        res = None
+                outs.append(('val', res, s))
+            return outs
+        if t is ast.Await:
+            return self.eval(node.value, st)
+        if t is ast.Call:
+            return self.eval_call(node, st)
+        if t in (ast.Lambda, ast.GeneratorExp, ast.ListComp, ast.SetComp, ast.DictComp):
+            r = self.dom.comp(self, node, st)
+            if r is not None:
+                return r
+            self.skip(node)
+            return [('val', None, st)]
+        if t is ast.BinOp:
+            outs = []
+            for kd, vals, s in self.eval_seq([node.left, node.right], st):
+                if kd != 'val':
+                    outs.append((kd, vals, s))
+                    continue
+                res = None
+                if all(isinstance(v, tuple) and v[0] == 'const' and isinstance(v[1], int) and not isinstance(v[1], bool) for v in vals):
+                    if isinstance(node.op, ast.Add):
+                        res = ('const', vals[0][1] + vals[1][1])
+                    elif isinstance(node.op, ast.Sub):
+                        res = ('const', vals[0][1] - vals[1][1])
+                outs.append(('val', res, s))
+            return outs
+        # anything else: evaluate the sub-expressions for their effects, value unknown
+        kids = [ch for ch in ast.iter_child_nodes(node) if isinstance(ch, ast.expr)]
+        if t is ast.Subscript:
+            kids = [node.value, node.slice]
+        return [(kd, None if kd == 'val' else v, s) for kd, v, s in self.eval_seq(kids, st)]
+
+    def eval_call(self, node, st):
+        f = node.func
+        outs = []
+        if isinstance(f, ast.Attribute) and _self_attr(f) is None:
+            heads = [(kd, v, s, None) for kd, v, s in self.eval(f.value, st)]        # a method of some receiver
+        else:
+            heads = [(kd, None, s, v) for kd, v, s in self.eval(f, st)]              # a plain name / `self.method`
+        for kd, recv, s, fval in heads:
+            if kd != 'val':
+                outs.append((kd, recv if fval is None else fval, s))
+                continue
+            argn = [a.value if isinstance(a, ast.Starred) else a for a in node.args]
+            kwn = [k.value for k in node.keywords]
+            for kd2, vals, s2 in self.eval_seq(argn + kwn, s):
+                if kd2 != 'val':
+                    outs.append((kd2, vals, s2))
+                    continue
+                args = vals[:len(argn)]
+                kwargs = {k.arg: v for k, v in zip(node.keywords, vals[len(argn):])}
+                r = self.dom.call(self, node, fval, recv, args, kwargs, s2)
+                if r is not None:
+                    outs.extend(r)
+                    continue
+                if isinstance(fval, tuple) and fval[0] == 'fn':
+                    r = self.inline(node, fval, args, kwargs, s2)
+                    if r is not None:
+                        outs.extend(r)
+                        continue
+                outs.append(('val', None, s2))
+        return outs
+
+    def inline(self, call, fval, args, kwargs, st):
+        fn, is_method = fval[1], fval[2]
+        starred = any(isinstance(a, ast.Starred) for a in call.args) or any(k.arg is None for k in call.keywords)
+        if st.depth >= 4 or fn in st.stack or _is_generator(fn) or starred:
+            for b in fn.body:
+                self.skip(b)
+            return None
+        s = st.fork()
+        caller_env = st.env
+        env = dict(st.env)
+        a = fn.args
+        params = [p.arg for p in a.posonlyargs + a.args]
+        if is_method and params:
+            params = params[1:]
+        defaults = dict(zip([p.arg for p in (a.posonlyargs + a.args)][len(a.posonlyargs + a.args) - len(a.defaults):], a.defaults))
+        for p, d in zip(a.kwonlyargs, a.kw_defaults):
+            if d is not None:
+                defaults[p.arg] = d
+        for i, p in enumerate(params + [p.arg for p in a.kwonlyargs]):
+            if i < len(args) and i < len(params):
+                env[p] = args[i]
+            elif p in kwargs:
+                env[p] = kwargs[p]
+            elif p in defaults and isinstance(defaults[p], ast.Constant):
+                env[p] = ('const', defaults[p].value)
+            else:
+                env[p] = _fresh()
+        for p in (a.vararg, a.kwarg):
+            if p is not None:
+                env[p.arg] = None
+        for n, d in _nested_defs(fn).items():
+            env[n] = ('fn', d, False)
+        s.env = env
+        s.depth += 1
+        s.stack = s.stack + (fn,)
+        outs = []
+        for sig, s2 in self.exec_block(fn.body, s):
+            s2.env = dict(caller_env)
+            s2.depth -= 1
+            s2.stack = s2.stack[:-1]
+            if sig == 'next':
+                outs.append(('val', ('const', None), s2))
+            elif isinstance(sig, tuple) and sig[0] == 'return':
+                outs.append(('val', sig[1], s2))
+            elif isinstance(sig, tuple) and sig[0] == 'exc':
+                outs.append(('exc', sig[1], s2))
+            elif sig == 'cut':
+                outs.append(('cut', None, s2))
+            else:
+                raise _Unknown('break / continue leaves a function')
+        return outs
+
+    # ------------------------------------------------------------------ statements
+    def assign(self, target, v, st):
+        if isinstance(target, ast.Name):
+            st.env[target.id] = _fresh() if v is None else v
+        elif isinstance(target, (ast.Tuple, ast.List)):
+            elts = target.elts
+            if isinstance(v, tuple) and v[0] == 'tuple' and len(v[1]) == len(elts) and not any(isinstance(e, ast.Starred) for e in elts):
+                for e, x in zip(elts, v[1]):
+                    self.assign(e, x, st)
+            else:
+                for e in elts:
+                    self.assign(e.value if isinstance(e, ast.Starred) else e, None, st)
+        else:
+            k = _self_attr(target)
+            if k is not None:
+                st.env[k] = v
+                return
+            if self.dom.store(self, target, v, st) is None:
+                # effects of the target's sub-expressions
+                for ch in ast.iter_child_nodes(target):
+                    if isinstance(ch, ast.expr):
+                        self.skip(ch)
+
+    def exec_block(self, stmts, st):
+        outs = [('next', st)]
+        for stmt in stmts:
+            nxt = []
+            for sig, s in outs:
+                if sig != 'next':
+                    nxt.append((sig, s))
+                else:
+                    nxt.extend(self.exec_stmt(stmt, s))
+            outs = nxt
+            if not any(sig == 'next' for sig, _ in outs):
+                break
+        return outs
+
+    def _after_eval(self, evs, cont):
+        outs = []
+        for kd, v, s in evs:
+            if kd == 'val':
+                outs.extend(cont(v, s))
+            elif kd == 'exc':
+                outs.append((('exc', v), s))
+            else:
+                outs.append(('cut', s))
+        return outs
+
+    def exec_stmt(self, node, st):
+        t = type(node)
+        if t is ast.Expr:
+            return self._after_eval(self.eval(node.value, st), lambda v, s: [('next', s)])
+        if t is ast.Assign:
+            def cont(v, s):
+                for tg in node.targets:
+                    self.assign(tg, v, s)
+                return [('next', s)]
+            return self._after_eval(self.eval(node.value, st), cont)
+        if t is ast.AnnAssign:
+            if node.value is None:
+                return [('next', st)]
+            return self._after_eval(self.eval(node.value, st), lambda v, s: (self.assign(node.target, v, s), [('next', s)])[1])
+        if t is ast.AugAssign:
+            r = self.dom.aug(self, node, st)
+            if r is not None:
+                return r
+
+            def cont(v, s):
+                if isinstance(node.target, ast.Name):
+                    old = s.env.get(node.target.id)
+                    new = None
+                    if (isinstance(old, tuple) and old[0] == 'const' and isinstance(v, tuple) and v[0] == 'const'
+                            and isinstance(old[1], int) and isinstance(v[1], int)):
+                        if isinstance(node.op, ast.Add):
+                            new = ('const', old[1] + v[1])
+                        elif isinstance(node.op, ast.Sub):
+                            new = ('const', old[1] - v[1])
+                    s.env[node.target.id] = _fresh() if new is None else new
+                else:
+                    self.skip(node.target)
+                return [('next', s)]
+            return self._after_eval(self.eval(node.value, st), cont)
+        if t is ast.If:
+            def cont(v, s):
+                outs = []
+                for b, s2 in self.decide(v, s):
+                    outs.extend(self.exec_block(node.body if b else node.orelse, s2))
+                return outs
+            return self._after_eval(self.eval(node.test, st), cont)
+        if t is ast.While:
+            return self.exec_while(node, st)
+        if t in (ast.For, ast.AsyncFor):
+            def cont(v, s):
+                tv = self.dom.bind_for(self, v, s)
+                self.assign(node.target, tv, s)
+                outs = []
+                for sig, s2 in self.exec_block(node.body, s):
+                    self.dom.loop_end(node, sig, s2)
+                    if sig in ('next', 'continue'):
+                        outs.extend(self.exec_block(node.orelse, s2))
+                    elif sig == 'break':
+                        outs.append(('next', s2))
+                    else:
+                        outs.append((sig, s2))
+                return outs
+            return self._after_eval(self.eval(node.iter, st), cont)
+        if t is ast.Try or t.__name__ == 'TryStar':
+            return self.exec_try(node, st)
+        if t in (ast.With, ast.AsyncWith):
+            return self.exec_with(node, 0, st)
+        if t is ast.Return:
+            if node.value is None:
+                return [(('return', ('const', None)), st)]
+            return self._after_eval(self.eval(node.value, st), lambda v, s: [(('return', v), s)])
+        if t is ast.Break:
+            return [('break', st)]
+        if t is ast.Continue:
+            return [('continue', st)]
+        if t is ast.Raise:
+            kind = 'other'
+            if node.exc is not None:
+                self.skip(node.exc)
+                kind = (_call_name(node.exc) if isinstance(node.exc, ast.Call) else ast.unparse(node.exc).split('.')[-1]) or 'other'
+            elif st.data.get('handling'):
+                kind = st.data['handling']
+            return [(('exc', kind), st)]
+        if t is ast.Delete:
+            outs = [('next', st)]
+            for tg in node.targets:
+                nxt = []
+                for sig, s in outs:
+                    if sig != 'next':
+                        nxt.append((sig, s))
+                        continue
+                    r = self.dom.delete(self, tg, s)
+                    if r is None:
+                        self.skip(tg)
+                        if isinstance(tg, ast.Name):
+                            s.env.pop(tg.id, None)
+                        r = [('next', s)]
+                    nxt.extend(r)
+                outs = nxt
+            return outs
+        if t in _FUNCS:
+            st.env[node.name] = ('fn', node, False)
+            return [('next', st)]
+        if t in (ast.Pass, ast.Global, ast.Nonlocal, ast.Import, ast.ImportFrom, ast.ClassDef):
+            return [('next', st)]
+        if t is ast.Assert:
+            self.skip(node)
+            return [('next', st)]
+        self.skip(node)
+        return [('next', st)]
+
+    def exec_while(self, node, st):
+        interesting = self.reaches_site(node)
+        results = []
+
+        def iterate(s, count):
+            if s.steps > self.dom.max_steps:
+                results.append(('cut', s))
+                return
+            s.steps += 1
+            for kd, v, s1 in self.eval(node.test, s):
+                if kd == 'exc':
+                    results.append((('exc', v), s1))
+                    continue
+                if kd == 'cut':
+                    results.append(('cut', s1))
+                    continue
+                for b, s2 in self.decide(v, s1):
+                    if not b:
+                        results.extend(self.exec_block(node.orelse, s2))
+                        continue
+                    if not interesting and count >= 1:
+                        # a loop the domain does not care about: at most one abstract iteration
+                        results.extend(self.exec_block(node.orelse, s2))
+                        continue
+                    single = self.dom.single(node)
+                    for sig, s3 in self.exec_block(node.body, s2):
+                        self.dom.loop_end(node, sig, s3)
+                        if sig in ('next', 'continue') and single:
+                            results.extend(self.exec_block(node.orelse, s3))
+                        elif sig in ('next', 'continue'):
+                            iterate(s3, count + 1)
+                        elif sig == 'break':
+                            results.append(('next', s3))
+                        else:
+                            results.append((sig, s3))
+        iterate(st, 0)
+        return results
+
+    def exec_try(self, node, st):
+        outs = []
+        for sig, s in self.exec_block(node.body, st):
+            if isinstance(sig, tuple) and sig[0] == 'exc':
+                handled = False
+                for h in node.handlers:
+                    if self.dom.matches(self, h.type, sig[1], s):
+                        handled = True
+                        if h.name:
+                            s.env[h.name] = None
+                        prev = s.data.get('handling')
+                        s.data['handling'] = sig[1]
+                        for sig2, s2 in self.exec_block(h.body, s):
+                            s2.data['handling'] = prev
+                            outs.append((sig2, s2))
+                        break
+                if not handled:
+                    outs.append((sig, s))
+            elif sig == 'next':
+                outs.extend(self.exec_block(node.orelse, s))
+            else:
+                outs.append((sig, s))
+        if not node.finalbody:
+            return outs
+        final = []
+        for sig, s in outs:
+            if sig == 'cut':
+                final.append((sig, s))
+                continue
+            for sig2, s2 in self.exec_block(node.finalbody, s):
+                final.append((sig if sig2 == 'next' else sig2, s2))
+        return final
+
+    def exec_with(self, node, i, st):
+        if i == len(node.items):
+            return self.exec_block(node.body, st)
+        item = node.items[i]
+
+        def cont(v, s):
+            tok = self.dom.enter(self, v, s)
+            if item.optional_vars is not None:
+                self.assign(item.optional_vars, v, s)
+            if tok is None:
+                return self.exec_with(node, i + 1, s)
+            s.held = s.held + (tok,)
+            outs = []
+            for sig, s2 in self.exec_with(node, i + 1, s):
+                if sig != 'cut':
+                    if not s2.held or s2.held[-1] != tok:
+                        raise _Unknown('unbalanced with')
+                    s2.held = s2.held[:-1]
+                outs.append((sig, s2))
+            return outs
+        return self._after_eval(self.eval(item.context_expr, st), cont)
+
+
+# ---------------------------------------------------------------------------------------------------------------- environments
+def _class_of(tree, name):
+    for st in tree.body:
+        if isinstance(st, ast.ClassDef) and st.name == name:
+            return st
+    return None
+
+
+def _method(cls, name):
+    for st in cls.body if cls is not None else []:
+        if isinstance(st, _FUNCS) and st.name == name:
+            return st
+    return None
+
+
+def _params(fn):
+    a = fn.args
+    return [p.arg for p in a.posonlyargs + a.args + a.kwonlyargs] + [p.arg for p in (a.vararg, a.kwarg) if p is not None]
+
+
+def _seed(tree, cls, chain):
+    """→ (funcs_env, env, creators): what a function nested in `chain` (method first) sees of the enclosing scopes.
+    creators: name → the expression that created the object bound to that name (names bound exactly once)."""
+    funcs, env, creators = {}, {}, {}
+    for st in tree.body:
+        if isinstance(st, _FUNCS):
+            funcs[st.name] = ('fn', st, False)
+        elif isinstance(st, ast.Assign) and len(st.targets) == 1 and isinstance(st.targets[0], ast.Name) and isinstance(st.value, ast.Constant):
+            env[st.targets[0].id] = ('const', st.value.value)
+    for st in cls.body if cls is not None else []:
+        if isinstance(st, _FUNCS):
+            funcs['self.' + st.name] = ('fn', st, True)
+        elif isinstance(st, ast.Assign) and len(st.targets) == 1 and isinstance(st.targets[0], ast.Name) and isinstance(st.value, ast.Constant):
+            env['self.' + st.targets[0].id] = ('const', st.value.value)
+    init = _method(cls, '__init__')
+    if init is not None:
+        seen = {}
+        for n in _body_walk(init):
+            if isinstance(n, ast.Assign):
+                for t in n.targets:
+                    k = _self_attr(t)
+                    if k:
+                        seen.setdefault(k, []).append(n.value)
+        for k, vals in seen.items():
+            if len(vals) == 1 and _classify(vals[0]):
+                env[k] = ('obj', _classify(vals[0]), k)
+                creators[k] = vals[0]
+    for fn in chain:
+        for p in _params(fn):
+            if p != 'self':
+                env[p] = _fresh()
+        bound = _bound_names(fn)
+        for name, vals in bound.items():
+            env.pop(name, None)
+            creators.pop(name, None)
+            if len(vals) == 1 and vals[0] is not None:
+                kind = _classify(vals[0])
+                if kind:
+                    env[name] = ('obj', kind, name)
+                    creators[name] = vals[0]
+                elif isinstance(vals[0], ast.Constant):
+                    env[name] = ('const', vals[0].value)
+        for name, vals in bound.items():            # aliases of the above
+            if len(vals) == 1 and isinstance(vals[0], ast.Name) and vals[0].id in env and name not in env and len(bound.get(vals[0].id, [0])) == 1:
+                env[name] = env[vals[0].id]
+            elif len(vals) == 1 and vals[0] is not None and _self_attr(vals[0]) in env and name not in env:
+                env[name] = env[_self_attr(vals[0])]
+        for n, d in _nested_defs(fn).items():
+            env[n] = ('fn', d, False)
+            funcs[n] = ('fn', d, False)          # (static resolution of helper calls: `reaches`, `sites`)
+    return funcs, env, creators
+
+
+def _bind_own_params(fn, env, defaults_ok):
+    """parameters of the function under analysis: constants for literal defaults (when it is called without arguments), else fresh"""
+    a = fn.args
+    pos = a.posonlyargs + a.args
+    dflt = dict(zip([p.arg for p in pos][len(pos) - len(a.defaults):], a.defaults))
+    for p, d in zip(a.kwonlyargs, a.kw_defaults):
+        if d is not None:
+            dflt[p.arg] = d
+    for p in _params(fn):
+        d = dflt.get(p)
+        env[p] = ('const', d.value) if (defaults_ok and isinstance(d, ast.Constant)) else _fresh()
+    for n, d in _nested_defs(fn).items():
+        env[n] = ('fn', d, False)
+
+
+def _run(dom, funcs, env, fn, defaults_ok=False):
+    """execute the body of `fn` → [(signal, state)]"""
+    funcs = dict(funcs)
+    for n, d in _nested_defs(fn).items():
+        funcs[n] = ('fn', d, False)
+    m = _Machine(dom, funcs)
+    st = _St()
+    st.env = dict(env)
+    _bind_own_params(fn, st.env, defaults_ok)
+    st.stack = (fn,)
+    return m, m.exec_block(fn.body, st)
+
+
+# ---------------------------------------------------------------------------------------------------------------- producer
+def _is_number(v):
+    return isinstance(v, tuple) and v[0] == 'const' and isinstance(v[1], (int, float)) and not isinstance(v[1], bool) and v[1] >= 0
+
+
+class _ProducerDom(_Dom):
+    """events per chunk: A+ / A- (abort flag tested: set / clear), P+ / PF (put succeeded / queue.Full), END / EXIT (iteration over /
+    per-chunk loop left by break)"""
+    site_calls = ('is_set', 'wait', 'put', 'put_nowait')
+    danger_calls = ('put', 'put_nowait')
+    max_choices = 6
+
+    def __init__(self, abort_names, loop):
+        self.abort = set(abort_names)
+        self.loop = loop
+        self.queues = set()
+        self.kinds = set()
+
+    @staticmethod
+    def is_put(node):
+        return isinstance(node, ast.Call) and isinstance(node.func, ast.Attribute) and node.func.attr in ('put', 'put_nowait')
+
+    def single(self, node):
+        return node is self.loop
+
+    def loop_end(self, node, sig, st):
+        if node is self.loop and not any(e[0] in ('END', 'EXIT') for e in st.trace):
+            if sig in ('next', 'continue'):
+                st.ev('END')
+            elif sig == 'break':
+                st.ev('EXIT')
+
+    def _choice(self, st):
+        st.choices += 1
+        return st.choices <= self.max_choices
+
+    def prim(self, m, node, st):
+        if not (isinstance(node, ast.Call) and isinstance(node.func, ast.Attribute)):
+            return None
+        attr = node.func.attr
+        if attr not in self.site_calls:
+            return None
+        recv = m.peek(node.func.value, st)
+        if not (isinstance(recv, tuple) and recv[0] == 'obj'):
+            return None             # not an identified object: no event (an unidentified put / test never counts in favour)
+        if recv[1] == 'event' and recv[2] in self.abort and (attr == 'is_set' or (attr == 'wait' and (node.args or node.keywords))):
+            outs = []
+            for kd, vals, s in m.eval_seq(list(node.args) + [k.value for k in node.keywords], st):
+                if kd != 'val':
+                    outs.append((kd, vals, s))
+                    continue
+                if not self._choice(s):
+                    outs.append(('cut', None, s))
+                    continue
+                s2 = s.fork()
+                outs.append(('val', ('const', True), s.ev('A+')))
+                outs.append(('val', ('const', False), s2.ev('A-')))
+                m.tick()
+            return outs
+        if recv[1] == 'queue' and attr in ('put', 'put_nowait'):
+            outs = []
+            argn = list(node.args)
+            for kd, vals, s in m.eval_seq(argn + [k.value for k in node.keywords], st):
+                if kd != 'val':
+                    outs.append((kd, vals, s))
+                    continue
+                kw = {k.arg: v for k, v in zip(node.keywords, vals[len(argn):])}
+                if any(k.arg is None for k in node.keywords) or any(isinstance(a, ast.Starred) for a in argn):
+                    raise _Unknown('put with * / ** arguments')
+                bounded = attr == 'put_nowait'
+                if attr == 'put':
+                    block = kw.get('block', vals[1] if len(argn) > 1 else ('const', True))
+                    timeout = kw.get('timeout', vals[2] if len(argn) > 2 else ('const', None))
+                    if isinstance(block, tuple) and block[0] == 'const' and block[1] is False:
+                        bounded = True
+                    elif isinstance(block, tuple) and block[0] == 'const' and block[1] is True and _is_number(timeout):
+                        bounded = True
+                self.queues.add(recv[2])
+                self.kinds.add(bounded)
+                if not self._choice(s):
+                    outs.append(('cut', None, s))
+                    continue
+                if bounded:
+                    s2 = s.fork()
+                    outs.append(('exc', 'Full', s2.ev('PF')))
+                    m.tick()
+                outs.append(('val', ('const', None), s.ev('P+')))
+            return outs
+        return None
+
+
+def _per_item_loop(m, fn, pred):
+    """the outermost loop of `fn` that contains the (only) statement reaching `pred`; None when there is no such loop"""
+    stmts = fn.body
+    while True:
+        hits = [st for st in stmts if not isinstance(st, _FUNCS) and m.reaches(st, pred, 'put')]
+        if len(hits) != 1:
+            return None
+        st = hits[0]
+        if isinstance(st, (ast.For, ast.AsyncFor, ast.While)):
+            return st if any(m.reaches(b, pred, 'put') for b in st.body) else None
+        if isinstance(st, (ast.With, ast.AsyncWith)):
+            stmts = st.body
+        elif isinstance(st, ast.Try) and any(m.reaches(b, pred, 'put') for b in st.body):
+            stmts = st.body
+        else:
+            return None
+
+
+def _producer_facts(funcs, env, prod, abort_names, notes):
+    """→ (stops, rechecks, queue names the producer puts into)"""
+    funcs = dict(funcs)
+    for n, d in _nested_defs(prod).items():
+        funcs[n] = ('fn', d, False)
+    probe = _Machine(_ProducerDom(abort_names, None), funcs)
+    puts = probe.sites(prod, _ProducerDom.is_put)
+    if len(puts) != 1:
+        notes['sched.producer'] = f'{len(puts)} put sites in the chunk producer (1 expected)'
+        return False, False, set()
+    loop = _per_item_loop(probe, prod, _ProducerDom.is_put)
+    if loop is None:
+        notes['sched.producer'] = 'the put is not inside a per-chunk loop of the producer'
+        return False, False, set()
+    # (the interpreter runs a `for` body once: a second `for` between the per-chunk loop and the put would hide repeated attempts)
+    if probe.sites(prod, lambda n: isinstance(n, (ast.For, ast.AsyncFor)) and n is not loop
+                   and any(probe.reaches(b, _ProducerDom.is_put, 'put') for b in n.body)):
+        raise _Unknown('the put is inside a second for-loop')
+    dom = _ProducerDom(abort_names, loop)
+    m, outs = _run(dom, funcs, env, prod, defaults_ok=True)
+    stops = rechecks = True
+    saw_put = saw_full = False
+    for sig, st in outs:
+        evs = [e[0] for e in st.trace]
+        term = None
+        for i, e in enumerate(evs):
+            if e in ('END', 'EXIT'):
+                term, evs = e, evs[:i]
+                break
+        if term is None:
+            term = 'CUT' if sig == 'cut' else ('RET' if (sig == 'next' or (isinstance(sig, tuple) and sig[0] == 'return')) else 'EXC')
+        fresh = False
+        for i, e in enumerate(evs):
+            last = i == len(evs) - 1
+            if e == 'A-':
+                fresh = True
+            elif e == 'A+':
+                # the flag is set: leave the producer, nothing else happens to a chunk
+                if not (last and term in ('RET', 'EXIT')):
+                    stops = False
+            elif e in ('P+', 'PF'):
+                saw_put = True
+                if not fresh:
+                    stops = False
+                fresh = False
+                if e == 'PF':
+                    saw_full = True
+                    if last and term != 'CUT':
+                        rechecks = False            # the chunk is dropped / the producer dies on a full queue
+                    if not last and evs[i + 1] not in ('A+', 'A-'):
+                        rechecks = False
+                else:
+                    rest = evs[i + 1:]
+                    if any(x in ('P+', 'PF') for x in rest):
+                        rechecks = False            # queued twice
+                    if term in ('RET', 'EXIT', 'EXC') and 'A+' not in rest:
+                        rechecks = False            # stops producing after a successful put
+        if term == 'END' and (not evs or 'P+' not in evs):
+            rechecks = False                         # an iteration ends without having queued its chunk
+    if not saw_put:
+        stops = False
+    if dom.kinds != {True} or not saw_full:
+        rechecks = False
+    return stops, stops and rechecks, dom.queues
+
+
+# ---------------------------------------------------------------------------------------------------------------- slots (static)
+def _linear(node, names, depth=0):
+    """integer expression → (a, b) meaning a·concurrent + b; `names`: name / 'self.x' → (a, b).  None when not linear."""
+    if depth > 8:
+        return None
+    if isinstance(node, ast.Constant) and isinstance(node.value, int) and not isinstance(node.value, bool):
+        return (0, node.value)
+    if isinstance(node, ast.Name):
+        return names.get(node.id)
+    k = _self_attr(node)
+    if k is not None:
+        return names.get(k)
+    if isinstance(node, ast.BinOp):
+        l, r = _linear(node.left, names, depth + 1), _linear(node.right, names, depth + 1)
+        if l is None or r is None:
+            return None
+        if isinstance(node.op, ast.Add):
+            return (l[0] + r[0], l[1] + r[1])
+        if isinstance(node.op, ast.Sub):
+            return (l[0] - r[0], l[1] - r[1])
+        if isinstance(node.op, ast.Mult) and (l[0] == 0 or r[0] == 0):
+            c, x = (l[1], r) if l[0] == 0 else (r[1], l)
+            return (c * x[0], c * x[1])
+    return None
+
+
+def _linear_names(tree, cls, fn):
+    """linear forms of the names visible in `fn` (a method of `cls`): module / class integer constants, `concurrent`, and what is
+    assigned exactly once from such an expression (locals of `fn`, `self.x` in `__init__`)"""
+    names = {}
+    for st in tree.body:
+        if isinstance(st, ast.Assign) and len(st.targets) == 1 and isinstance(st.targets[0], ast.Name):
+            v = _linear(st.value, {})
+            if v is not None:
+                names[st.targets[0].id] = v
+    for st in cls.body:
+        if isinstance(st, ast.Assign) and len(st.targets) == 1 and isinstance(st.targets[0], ast.Name):
+            v = _linear(st.value, names)
+            if v is not None:
+                names['self.' + st.targets[0].id] = v
+                names[cls.name + '.' + st.targets[0].id] = v
+    if 'concurrent' in _params(fn):
+        names['concurrent'] = (1, 0)
+    init = _method(cls, '__init__')
+    for f in ([init] if init is not None and init is not fn else []) + [fn]:
+        if f is init and 'concurrent' in _params(init):
+            names.setdefault('concurrent', (1, 0))
+        for _ in range(3):
+            count = {}
+            for n in _body_walk(f):
+                for t in _assign_targets(n):
+                    key = t.id if isinstance(t, ast.Name) else _self_attr(t)
+                    if key:
+                        count[key] = count.get(key, 0) + 1
+            for n in _body_walk(f):
+                if isinstance(n, ast.Assign) and len(n.targets) == 1:
+                    t = n.targets[0]
+                    key = t.id if isinstance(t, ast.Name) else _self_attr(t)
+                    if key and count.get(key) == 1 and key != 'concurrent':
+                        if f is init and f is not fn and not key.startswith('self.'):
+                            continue
+                        v = _linear(n.value, names)
+                        if v is not None:
+                            names[key] = v
+    if 'concurrent' not in _params(fn):
+        names.pop('concurrent', None)
+    return names
+
+
+def _slot_fill(tree, cls, notes):
+    """→ (queue attribute 'self.x', base, (a, b) of the number of slots) from the loop that fills the slot queue; None if not found"""
+    init = _method(cls, '__init__')
+    if init is None:
+        return None
+    fns = [init]
+    for n in _body_walk(init):
+        if isinstance(n, ast.Call) and _self_attr(n.func) and not n.args and not n.keywords:
+            h = _method(cls, n.func.attr)
+            if h is not None and h not in fns:
+                fns.append(h)
+    found = []
+    for fn in fns:
+        names = _linear_names(tree, cls, fn)
+        for n in _body_walk(fn):
+            if not (isinstance(n, ast.For) and isinstance(n.target, ast.Name) and _call_name(n.iter) == 'range' and isinstance(n.iter.func, ast.Name)
+                    and 1 <= len(n.iter.args) <= 2 and not n.iter.keywords and not n.orelse):
+                continue
+            puts = [c for st in n.body for c in _walk_local(st) if isinstance(c, ast.Call) and isinstance(c.func, ast.Attribute)
+                    and c.func.attr in ('put_nowait', 'put') and _self_attr(c.func.value)]
+            if len(puts) != 1 or len(puts[0].args) != 1 or puts[0].keywords:
+                continue
+            # the put is a statement of the loop body itself (not under a condition)
+            if not any(isinstance(st, ast.Expr) and (st.value is puts[0] or (isinstance(st.value, ast.Await) and st.value.value is puts[0])) for st in n.body):
+                continue
+            lo = (0, 0) if len(n.iter.args) == 1 else _linear(n.iter.args[0], names)
+            hi = _linear(n.iter.args[-1], names)
+            off = _linear(puts[0].args[0], dict(names, **{n.target.id: (0, 0)}))
+            one = _linear(puts[0].args[0], dict(names, **{n.target.id: (0, 1)}))
+            if None in (lo, hi, off, one) or (one[0] - off[0], one[1] - off[1]) != (0, 1):
+                continue
+            found.append((_self_attr(puts[0].func.value), (lo[0] + off[0], lo[1] + off[1]), (hi[0] - lo[0], hi[1] - lo[1])))
+    if len(found) != 1:
+        notes['sched.slot_fill'] = f'{len(found)} loops that fill a queue attribute with a range (1 expected)'
+        return None
+    q, base, count = found[0]
+    if base[0] != 0 or base[1] < 0:
+        notes['sched.slot_fill'] = 'the first slot number is not a constant'
+        return None
+    return q, base[1], count
+
+
+def _carries(node, get_call, slotvars):
+    """does the value of `node` equal the value obtained by `get_call` (through await / future.result / run_coroutine_threadsafe /
+    wait_for / a local that carries it)?"""
+    if node is get_call:
+        return True
+    if isinstance(node, ast.Name):
+        return node.id in slotvars
+    if isinstance(node, ast.Await):
+        return _carries(node.value, get_call, slotvars)
+    if isinstance(node, ast.NamedExpr):
+        return _carries(node.value, get_call, slotvars)
+    if isinstance(node, ast.Call):
+        nm = _call_name(node)
+        if nm == 'result' and isinstance(node.func, ast.Attribute):
+            return _carries(node.func.value, get_call, slotvars)
+        if nm in ('run_coroutine_threadsafe', 'wait_for', 'ensure_future', 'create_task', 'shield') and node.args:
+            return _carries(node.args[0], get_call, slotvars)
+    return False
+
+
+def _slot_cm(fn, q):
+    """one request to the slot queue `q` ('self.x'); try: yield <that value>; finally: <give that value back to q>"""
+    if fn is None or not _is_generator(fn):
+        return False
+    tries = [st for st in fn.body if isinstance(st, ast.Try)]
+    qrefs = [n for n in _body_walk(fn) if _self_attr(n) == q]
+    gets = [n for n in _body_walk(fn) if isinstance(n, ast.Call) and isinstance(n.func, ast.Attribute) and n.func.attr in ('get', 'get_nowait')
+            and _self_attr(n.func.value) == q]
+    yields = [n for n in _body_walk(fn) if isinstance(n, (ast.Yield, ast.YieldFrom))]
+    if len(gets) != 1 or len(qrefs) != 2 or len(yields) != 1 or not isinstance(yields[0], ast.Yield) or not tries:
+        return False
+    t = None
+    for cand in tries:
+        if any(isinstance(st, ast.Expr) and st.value is yields[0] for st in cand.body):
+            t = cand
+    if t is None or not t.finalbody:
+        return False
+    pre = fn.body[:fn.body.index(t)]
+    if not any(n is gets[0] for st in pre for n in _walk_local(st)):
+        return False
+    if any(isinstance(n, (ast.Return,)) for st in pre for n in _walk_local(st)):
+        return False
+    slotvars = set()
+    for _ in range(4):
+        for st in pre:
+            for n in _walk_local(st):
+                if isinstance(n, (ast.Assign, ast.NamedExpr, ast.AnnAssign)) and n.value is not None and _carries(n.value, gets[0], slotvars):
+                    for tg in _assign_targets(n):
+                        if isinstance(tg, ast.Name):
+                            slotvars.add(tg.id)
+    # a slot variable must not be rebound to something else
+    for n in _body_walk(fn):
+        for tg in _assign_targets(n):
+            if isinstance(tg, ast.Name) and tg.id in slotvars and not (n.value is not None and _carries(n.value, gets[0], slotvars)):
+                return False
+        if isinstance(n, (ast.For, ast.AsyncFor)) and any(isinstance(x, ast.Name) and x.id in slotvars for x in ast.walk(n.target)):
+            return False
+    if not (isinstance(yields[0].value, ast.Name) and yields[0].value.id in slotvars):
+        return False
+
+    def gives_back(call):
+        nm = _call_name(call)
+        if nm in ('put_nowait', 'put') and isinstance(call.func, ast.Attribute) and _self_attr(call.func.value) == q:
+            return len(call.args) == 1 and not call.keywords and isinstance(call.args[0], ast.Name) and call.args[0].id in slotvars
+        if nm in ('call_soon_threadsafe', 'call_soon') and len(call.args) == 2:
+            f, a = call.args
+            return (isinstance(f, ast.Attribute) and f.attr == 'put_nowait' and _self_attr(f.value) == q
+                    and isinstance(a, ast.Name) and a.id in slotvars)
+        if nm in ('run_coroutine_threadsafe', 'result') and (call.args or isinstance(call.func, ast.Attribute)):
+            inner = call.args[0] if nm == 'run_coroutine_threadsafe' else call.func.value
+            return isinstance(inner, ast.Call) and gives_back(inner)
+        return False
+    backs = []
+    for st in t.finalbody:
+        v = st.value if isinstance(st, ast.Expr) else None
+        if isinstance(v, ast.Await):
+            v = v.value
+        if isinstance(v, ast.Call) and gives_back(v):
+            backs.append(st)
+    # the second reference to the queue is the give-back, and it is an unconditional statement of the `finally` block
+    return len(backs) == 1 and any(n is qrefs[0] or n is qrefs[1] for n in ast.walk(backs[0]) if _self_attr(n) == q) \
+        and not any(n is gets[0] for n in ast.walk(backs[0]))
+
+
+_TRANSFER_OPS = ('exists', 'download', 'upload', 'delete', 'upload_stream', 'download_stream')
+
+
+def _all_functions(cls):
+    """every function defined in the class, at any depth → [(function, enclosing function or None)]"""
+    out = []
+
+    def rec(fn, parent):
+        out.append((fn, parent))
+        for d in _body_walk_defs(fn):
+            rec(d, fn)
+    for st in cls.body:
+        if isinstance(st, _FUNCS):
+            rec(st, None)
+    return out
+
+
+def _transfers_under_slot(cls, cms, notes):
+    """every `self.backend.<transfer op>` in the class is referenced inside `with self.<slot manager>(…)`, or kept in a local that is
+    used only there, or sits in a function whose every call is there"""
+    funcs = _all_functions(cls)
+
+    def is_slot_with(node):
+        if not isinstance(node, (ast.With, ast.AsyncWith)):
+            return False
+        for i in node.items:
+            c = i.context_expr
+            if isinstance(c, ast.Call) and _self_attr(c.func) and c.func.attr in cms:
+                return True
+        return False
+
+    def inside_map(fn):
+        """id(node) → is the node lexically inside a slot `with` of fn (body of the with only)"""
+        m = {}
+
+        def rec(node, ins):
+            m[id(node)] = ins
+            if isinstance(node, _FUNCS + (ast.Lambda, ast.ClassDef)) and node is not fn:
+                return
+            if is_slot_with(node):
+                for i in node.items:
+                    rec(i, ins)
+                for st in node.body:
+                    rec(st, True)
+                return
+            for ch in ast.iter_child_nodes(node):
+                rec(ch, ins)
+        rec(fn, False)
+        return m
+
+    def backend_aliases(fn):
+        b = _bound_names(fn)
+        return {n for n, vals in b.items() if len(vals) == 1 and vals[0] is not None and _self_attr(vals[0]) == 'self.backend'}
+
+    memo = {}
+
+    def always_under_slot(fn, depth=0):
+        """every call of `fn` (self.fn(…) for methods, fn(…) for nested functions) is inside a slot `with` (≥ 1 call)"""
+        if id(fn) in memo:
+            return memo[id(fn)]
+        memo[id(fn)] = False
+        if depth > 3:
+            return False
+        parent = [p for f, p in funcs if f is fn][0]
+        calls = []
+        for g, _ in funcs:
+            im = None
+            for n in _body_walk(g):
+                hit = False
+                if parent is None:
+                    hit = isinstance(n, ast.Attribute) and _self_attr(n) == 'self.' + fn.name
+                else:
+                    hit = isinstance(n, ast.Name) and n.id == fn.name and isinstance(n.ctx, ast.Load) and (g is parent or g is fn or
+                                                                                                     any(f is g and p is parent for f, p in funcs))
+                if hit:
+                    im = im or inside_map(g)
+                    calls.append(im.get(id(n), False) or (g is not fn and always_under_slot(g, depth + 1)))
+        r = bool(calls) and all(calls)
+        memo[id(fn)] = r
+        return r
+
+    def passed_into_slot(fn, node):
+        """`self.helper(…, self.backend.op, …)`: the helper uses that parameter only inside its slot `with`"""
+        for c in _body_walk(fn):
+            if not (isinstance(c, ast.Call) and _self_attr(c.func) and any(a is node for a in c.args)):
+                continue
+            h = [f for f, p in funcs if p is None and f.name == c.func.attr]
+            if not h or any(isinstance(a, ast.Starred) for a in c.args[:[i for i, a in enumerate(c.args) if a is node][0] + 1]):
+                return False
+            h = h[0]
+            pos = [p.arg for p in h.args.posonlyargs + h.args.args][1:]
+            i = [i for i, a in enumerate(c.args) if a is node][0]
+            if i >= len(pos):
+                return False
+            hm = inside_map(h)
+            uses = [x for x in _body_walk(h) if isinstance(x, ast.Name) and x.id == pos[i]]
+            return bool(uses) and all(isinstance(x.ctx, ast.Load) and hm.get(id(x), False) for x in uses)
+        return False
+
+    seen_ops = set()
+    ok = True
+    for fn, _ in funcs:
+        al = backend_aliases(fn)
+        im = None
+        for n in _body_walk(fn):
+            if not (isinstance(n, ast.Attribute) and n.attr in _TRANSFER_OPS and isinstance(n.ctx, ast.Load)):
+                continue
+            if not (_self_attr(n.value) == 'self.backend' or (isinstance(n.value, ast.Name) and n.value.id in al)):
+                continue
+            seen_ops.add(n.attr)
+            im = im or inside_map(fn)
+            if im.get(id(n), False):
+                continue
+            # hoisted into a local: every use of that local must be inside the slot
+            holder = [x for x in _body_walk(fn) if isinstance(x, ast.Assign) and x.value is n and len(x.targets) == 1 and isinstance(x.targets[0], ast.Name)]
+            if holder:
+                v = holder[0].targets[0].id
+                uses = [x for x in _body_walk(fn) if isinstance(x, ast.Name) and x.id == v and isinstance(x.ctx, ast.Load)]
+                binds = _bound_names(fn).get(v, [])
+                if uses and len(binds) == 1 and all(im.get(id(x), False) for x in uses):
+                    continue
+            if always_under_slot(fn):
+                continue
+            if passed_into_slot(fn, n):
+                continue
+            ok = False
+            notes[f'sched.under_slot.{fn.name}'] = f'self.backend.{n.attr} is used outside `with <slot manager>`'
+    for op in _TRANSFER_OPS:
+        if op not in seen_ops:
+            ok = False
+            notes[f'sched.under_slot.{op}'] = f'no reference to self.backend.{op} found'
+    return ok
+
+
+# ---------------------------------------------------------------------------------------------------------------- restore: tables
+_ABSENT = ('absent',)
+
+
+def _is_logging_call(node):
+    return _root_name(node.func) in _LOGGING_ROOTS
+
+
+class _TableDom(_Dom):
+    """shared by the writer and the loader analyses: `with <lock>` → held, dict objects of the enclosing scope"""
+
+    def __init__(self):
+        self.epoch = itertools.count(1)
+
+    def enter(self, m, value, st):
+        if isinstance(value, tuple) and value[0] == 'obj' and value[1] == 'lock':
+            return ('G', value[2], next(self.epoch))
+        if isinstance(value, tuple) and value[0] == 'lock':
+            return ('F', value)
+        return None
+
+    @staticmethod
+    def glocks(st):
+        return tuple(h for h in st.held if h[0] == 'G')
+
+    @staticmethod
+    def dict_obj(v):
+        return isinstance(v, tuple) and v[0] == 'obj' and v[1] == 'dict'
+
+
+class _FlockDom(_TableDom):
+    """The writer, run symbolically for ONE key from a given start (`absent`, or `present` with a lock and a count c ≥ 1).
+    values: ('lock', 'old' | n), ('cnt', k) = c + k, ('const', n); store: (table, key) → value | _ABSENT.
+    events: ('acc', table, held), ('write', held, lock table entry, count entry)"""
+    site_calls = ('get', 'setdefault', 'pop', 'Lock', 'RLock', 'acquire', 'release')
+    max_paths = 600
+
+    def __init__(self, lock_table, count_table, present, defaults, names):
+        super().__init__()
+        self.lt, self.rc, self.present, self.defaults = lock_table, count_table, present, defaults
+        self.names = names            # names (with their local aliases) of the tables and of the locks of the enclosing scope
+        self.key = None
+
+    def is_site(self, node):
+        return (isinstance(node, ast.Name) and node.id in self.names) or _call_name(node) in ('Lock', 'RLock')
+
+    # -------- the store
+    def _key(self, k):
+        if k is None:
+            raise _Unknown('table key')
+        if self.key is None:
+            self.key = k
+        if k != self.key:
+            raise _Unknown('a second key of the lock tables')
+        return k
+
+    def _tables(self):
+        return (self.lt, self.rc)
+
+    def read(self, st, tab, k):
+        self._key(k)
+        store = st.data.get('store', {})
+        if tab in store:
+            return store[tab]
+        if not self.present:
+            return _ABSENT
+        return ('lock', 'old') if tab == self.lt else ('cnt', 0)
+
+    def write(self, st, tab, k, v):
+        self._key(k)
+        store = dict(st.data.get('store', {}))
+        store[tab] = v
+        st.data['store'] = store
+        st.ev('acc', tab, st.held)
+
+    def load(self, st, tab, k):
+        """value of table[k] or None when it raises KeyError"""
+        v = self.read(st, tab, k)
+        st.ev('acc', tab, st.held)
+        if v is _ABSENT:
+            if self.defaults.get(tab) == 'int':
+                self.write(st, tab, k, ('const', 0))
+                return ('const', 0)
+            return None
+        return v
+
+    def _tab(self, m, node, st):
+        v = m.peek(node, st)
+        if self.dict_obj(v):
+            if v[2] not in self._tables():
+                return None
+            return v[2]
+        return None
+
+    # -------- primitives
+    def prim(self, m, node, st):
+        t = type(node)
+        if t is ast.Subscript and isinstance(node.ctx, ast.Load):
+            tab = self._tab(m, node.value, st)
+            if tab is None:
+                return None
+            outs = []
+            for kd, k, s in m.eval(node.slice, st):
+                if kd != 'val':
+                    outs.append((kd, k, s))
+                    continue
+                v = self.load(s, tab, k)
+                outs.append(('exc', 'KeyError', s) if v is None else ('val', v, s))
+            return outs
+        if t is ast.Compare and len(node.ops) == 1:
+            op = node.ops[0]
+            if isinstance(op, (ast.In, ast.NotIn)):
+                tab = self._tab(m, node.comparators[0], st)
+                if tab is None:
+                    return None
+                outs = []
+                for kd, k, s in m.eval(node.left, st):
+                    if kd != 'val':
+                        outs.append((kd, k, s))
+                        continue
+                    present = self.read(s, tab, k) is not _ABSENT
+                    s.ev('acc', tab, s.held)
+                    outs.append(('val', ('const', present == isinstance(op, ast.In)), s))
+                return outs
+            outs = []
+            for kd, vals, s in m.eval_seq([node.left, node.comparators[0]], st):
+                if kd != 'val':
+                    outs.append((kd, vals, s))
+                    continue
+                outs.append(('val', self.compare(op, vals[0], vals[1]), s))
+            return outs
+        if t is ast.BinOp and isinstance(node.op, (ast.Add, ast.Sub)):
+            outs = []
+            for kd, vals, s in m.eval_seq([node.left, node.right], st):
+                if kd != 'val':
+                    outs.append((kd, vals, s))
+                    continue
+                outs.append(('val', self.arith(node.op, vals[0], vals[1]), s))
+            return outs
+        if t is ast.Call:
+            nm = _call_name(node)
+            if nm in ('Lock', 'RLock') and not node.args and not node.keywords:
+                return [('val', ('lock', next(_sym_counter)), st)]
+            if isinstance(node.func, ast.Attribute) and nm in ('get', 'setdefault', 'pop'):
+                tab = self._tab(m, node.func.value, st)
+                if tab is None:
+                    return None
+                if not (1 <= len(node.args) <= 2) or node.keywords:
+                    raise _Unknown('table call')
+                outs = []
+                for kd, vals, s in m.eval_seq(node.args, st):
+                    if kd != 'val':
+                        outs.append((kd, vals, s))
+                        continue
+                    k = vals[0]
+                    dflt = vals[1] if len(vals) == 2 else ('const', None)
+                    cur = self.read(s, tab, k)
+                    s.ev('acc', tab, s.held)
+                    if nm == 'get':
+                        outs.append(('val', dflt if cur is _ABSENT else cur, s))
+                    elif nm == 'setdefault':
+                        if cur is _ABSENT:
+                            self.write(s, tab, k, dflt)
+                            cur = dflt
+                        outs.append(('val', cur, s))
+                    else:
+                        if cur is _ABSENT and len(vals) == 1:
+                            outs.append(('exc', 'KeyError', s))
+                        else:
+                            self.write(s, tab, k, _ABSENT)
+                            outs.append(('val', dflt if cur is _ABSENT else cur, s))
+                return outs
+            if isinstance(node.func, ast.Attribute) and nm in ('acquire', 'release'):
+                v = m.peek(node.func.value, st)
+                if isinstance(v, tuple) and (v[0] == 'lock' or (v[0] == 'obj' and v[1] == 'lock')):
+                    raise _Unknown('explicit acquire / release')
+        return None
+
+    def compare(self, op, a, b):
+        none = ('const', None)
+        if isinstance(op, (ast.Is, ast.IsNot, ast.Eq, ast.NotEq)) and (a == none or b == none):
+            other = b if a == none else a
+            if other is None or (isinstance(other, tuple) and other[0] == 'sym'):
+                raise _Unknown('comparison with None')
+            return ('const', (other == none) == isinstance(op, (ast.Is, ast.Eq)))
+        if isinstance(a, tuple) and isinstance(b, tuple) and a[0] == 'const' and b[0] == 'cnt':
+            flip = {ast.Lt: ast.Gt, ast.Gt: ast.Lt, ast.LtE: ast.GtE, ast.GtE: ast.LtE}
+            op = flip.get(type(op), type(op))()
+            a, b = b, a
+        if isinstance(a, tuple) and isinstance(b, tuple) and a[0] == 'cnt' and b[0] == 'const' and isinstance(b[1], int):
+            lb, n = 1 + a[1], b[1]          # c + k ≥ 1 + k
+            res = {ast.Eq: False if n < lb else None, ast.NotEq: True if n < lb else None, ast.Gt: True if lb > n else None,
+                   ast.GtE: True if lb >= n else None, ast.Lt: False if lb >= n else None, ast.LtE: False if lb > n else None}.get(type(op))
+            if res is None:
+                raise _Unknown('comparison of the count')
+            return ('const', res)
+        if isinstance(a, tuple) and isinstance(b, tuple) and a[0] == 'const' and b[0] == 'const':
+            try:
+                return ('const', bool({ast.Eq: lambda: a[1] == b[1], ast.NotEq: lambda: a[1] != b[1], ast.Lt: lambda: a[1] < b[1],
+                                       ast.LtE: lambda: a[1] <= b[1], ast.Gt: lambda: a[1] > b[1], ast.GtE: lambda: a[1] >= b[1],
+                                       ast.Is: lambda: a[1] is b[1], ast.IsNot: lambda: a[1] is not b[1]}[type(op)]()))
+            except Exception:  # noqa: BLE001
+                return None
+        if any(isinstance(x, tuple) and x[0] in ('cnt', 'lock') for x in (a, b)):
+            raise _Unknown('comparison')
+        return None
+
+    def arith(self, op, a, b):
+        sign = 1 if isinstance(op, ast.Add) else -1
+        ints = lambda x: isinstance(x, tuple) and x[0] == 'const' and isinstance(x[1], int) and not isinstance(x[1], bool)   # noqa: E731
+        if ints(a) and ints(b):
+            return ('const', a[1] + sign * b[1])
+        if isinstance(a, tuple) and a[0] == 'cnt' and ints(b):
+            return ('cnt', a[1] + sign * b[1])
+        if isinstance(b, tuple) and b[0] == 'cnt' and ints(a) and sign == 1:
+            return ('cnt', b[1] + a[1])
+        if any(isinstance(x, tuple) and x[0] == 'cnt' for x in (a, b)):
+            raise _Unknown('arithmetic on the count')
+        return None
+
+    def decide(self, m, v, st):
+        if v[0] == 'lock':
+            return [(True, st)]
+        if v[0] == 'cnt':
+            if v[1] >= 0:
+                return [(True, st)]
+            raise _Unknown('sign of the count')
+        if v is _ABSENT:
+            raise _Unknown('absent value used')
+        return None
+
+    def store(self, m, target, value, st):
+        if isinstance(target, ast.Subscript):
+            tab = self._tab(m, target.value, st)
+            if tab is None:
+                return None
+            r = m.eval(target.slice, st)
+            if len(r) != 1 or r[0][0] != 'val':
+                raise _Unknown('table key')
+            self.write(st, tab, r[0][1], value)
+            return True
+        return None
+
+    def aug(self, m, node, st):
+        if not (isinstance(node.target, ast.Subscript) and self._tab(m, node.target.value, st)):
+            if isinstance(node.target, ast.Name) and isinstance(node.op, (ast.Add, ast.Sub)):
+                old = st.env.get(node.target.id)
+                if isinstance(old, tuple) and old[0] == 'cnt':
+                    outs = []
+                    for kd, v, s in m.eval(node.value, st):
+                        if kd == 'val':
+                            s.env[node.target.id] = self.arith(node.op, old, v)
+                            outs.append(('next', s))
+                        else:
+                            outs.append(((kd, v) if kd == 'exc' else 'cut', s))
+                    return outs
+            return None
+        tab = self._tab(m, node.target.value, st)
+        if not isinstance(node.op, (ast.Add, ast.Sub)):
+            raise _Unknown('operator on the count')
+        outs = []
+        for kd, vals, s in m.eval_seq([node.target.slice, node.value], st):
+            if kd != 'val':
+                outs.append(((kd, vals) if kd == 'exc' else 'cut', s))
+                continue
+            cur = self.load(s, tab, vals[0])
+            if cur is None:
+                outs.append((('exc', 'KeyError'), s))
+                continue
+            new = self.arith(node.op, cur, vals[1])
+            if new is None:
+                raise _Unknown('count arithmetic')
+            self.write(s, tab, vals[0], new)
+            outs.append(('next', s))
+        return outs
+
+    def delete(self, m, target, st):
+        if isinstance(target, ast.Subscript):
+            tab = self._tab(m, target.value, st)
+            if tab is None:
+                return None
+            r = m.eval(target.slice, st)
+            if len(r) != 1 or r[0][0] != 'val':
+                raise _Unknown('table key')
+            s = r[0][2]
+            if self.read(s, tab, r[0][1]) is _ABSENT:
+                return [(('exc', 'KeyError'), s)]
+            self.write(s, tab, r[0][1], _ABSENT)
+            return [('next', s)]
+        return None
+
+    def call(self, m, node, fval, recv, args, kwargs, st):
+        # something is done to the file the key stands for: a call that receives the key (or is a method of it)
+        if self.key is not None and not _is_logging_call(node) and not (isinstance(fval, tuple) and fval[0] == 'fn' and self._follows(m, fval)):
+            if any(a == self.key for a in list(args) + list(kwargs.values())) or recv == self.key:
+                store = st.data.get('store', {})
+                st.ev('write', st.held, self.read(st, self.lt, self.key), self.read(st, self.rc, self.key))
+        return None
+
+    def _follows(self, m, fval):
+        """a helper that is inlined and itself touches the tables is not 'the write' — its body is analysed instead"""
+        fn = fval[1]
+        return any(m.reaches(b, self.is_site, 'site') for b in fn.body)
+
+
+def _flock_facts(funcs, env, creators, writer, notes):
+    """→ (flockShapeRecognised, flockDelAtZero)"""
+    # the lock table = the dict of the enclosing scope that receives a new Lock; the count table = the one incremented / set to a number
+    lt = rc = None
+    funcs = dict(funcs)
+    for n, d in _nested_defs(writer).items():
+        funcs[n] = ('fn', d, False)
+    probe = _Machine(_Dom(), funcs)
+    scope = [writer] + [fv[1] for n in ast.walk(writer) if isinstance(n, ast.Call) for fv in [probe.static_callee(n.func)] if fv is not None]
+    dicts = {n for n, v in env.items() if isinstance(v, tuple) and v[0] == 'obj' and v[1] == 'dict' and v[2] == n}
+    names = set(dicts) | {n for n, v in env.items() if isinstance(v, tuple) and v[0] == 'obj' and v[1] == 'lock'}
+    for want in ('lt', 'rc'):
+        for fn in scope:
+            aliases = {n: vals[0].id for n, vals in _bound_names(fn).items() if len(vals) == 1 and isinstance(vals[0], ast.Name) and vals[0].id in names}
+            names |= set(aliases)
+
+            def table_of(node):
+                if isinstance(node, ast.Subscript) and isinstance(node.value, ast.Name):
+                    nm = aliases.get(node.value.id, node.value.id)
+                    return nm if nm in dicts else None
+                return None
+            for n in _body_walk(fn):
+                if want == 'lt':
+                    if isinstance(n, ast.Assign) and _call_name(n.value) in ('Lock', 'RLock'):
+                        for t in n.targets:
+                            lt = table_of(t) or lt
+                    if isinstance(n, ast.Call) and _call_name(n) == 'setdefault' and len(n.args) == 2 and _call_name(n.args[1]) in ('Lock', 'RLock') \
+                            and isinstance(n.func, ast.Attribute) and isinstance(n.func.value, ast.Name):
+                        nm = aliases.get(n.func.value.id, n.func.value.id)
+                        lt = nm if nm in dicts else lt
+                else:
+                    if isinstance(n, ast.AugAssign) and table_of(n.target) and table_of(n.target) != lt:
+                        rc = table_of(n.target)
+                    if isinstance(n, ast.Assign) and isinstance(n.value, (ast.Constant, ast.BinOp)):
+                        for t in n.targets:
+                            if table_of(t) and table_of(t) != lt:
+                                rc = rc or table_of(t)
+    if lt is None or rc is None or lt == rc:
+        notes['sched.flock'] = 'writer: no table of per-file locks with a table of reference counts found'
+        return False, False
+    defaults = {n: _dict_default(creators.get(n)) for n in (lt, rc)}
+    shape = at_zero = True
+    for present in (False, True):
+        dom = _FlockDom(lt, rc, present, defaults, names)
+        m, outs = _run(dom, funcs, env, writer)
+        if not outs:
+            return False, False
+        for sig, st in outs:
+            if not (sig == 'next' or (isinstance(sig, tuple) and sig[0] == 'return')):
+                return False, False                 # an exception / abandoned path in the protocol itself
+            accs = [e for e in st.trace if e[0] == 'acc']
+            writes = [e for e in st.trace if e[0] == 'write']
+            gl = {h[1] for e in accs for h in e[2] if h[0] == 'G'}
+            # (1) every access to the two tables with the one registry lock held (and not the file's lock)
+            if not accs or len(gl) != 1 or any(len([h for h in e[2] if h[0] == 'G']) != 1 or any(h[0] == 'F' for h in e[2]) for e in accs):
+                return False, False
+            # (2) the write: exactly the file's current lock held, registered with count start + 1
+            start1 = ('cnt', 1) if present else ('const', 1)
+            if not writes or any(not (len(e[1]) == 1 and e[1][0][0] == 'F' and e[1][0][1] == e[2] and e[2][0] == 'lock' and e[3] == start1) for e in writes):
+                return False, False
+            if present and any(e[2] != ('lock', 'old') for e in writes):
+                return False, False
+            # (3) afterwards: the count is back; entries deleted when (and, for at_zero, only when) it reached zero
+            fl, fc = dom.read(st, lt, dom.key), dom.read(st, rc, dom.key)
+            if not present:
+                if not (fl is _ABSENT and fc is _ABSENT):
+                    shape = False
+            else:
+                kept = fl == ('lock', 'old') and fc == ('cnt', 0)
+                gone = fl is _ABSENT and fc is _ABSENT
+                if not (kept or gone):
+                    shape = False
+                if not kept:
+                    at_zero = False
+            if (st.held or ()) != ():
+                return False, False
+    return shape, shape and at_zero
+
+
+# ---------------------------------------------------------------------------------------------------------------- restore: loader
+class _LoaderDom(_TableDom):
+    """The chunk loader.  values: ('elem', table, key) = table[key]; ('emp', is_empty?, table, key, held, position, uid) = the emptiness
+    of such an element as evaluated at `position` of the trace with `held`; ('fut', uid) = a submitted writer; a list of futures is
+    the sym bound to it (members in data['members']); ('elemof', list).
+    events: ('remove', site, table, key, held, unjoined), ('pop', site, table, key, held, facts)"""
+    site_calls = ('remove', 'discard', 'pop', 'submit', 'result', 'exception', 'append', 'as_completed', 'wait')
+    danger_calls = ('remove', 'discard', 'pop', 'submit')
+    max_paths = 3000
+
+    def __init__(self):
+        super().__init__()
+        self.visited = set()
+
+    def prim(self, m, node, st):
+        t = type(node)
+        if t is ast.Subscript and isinstance(node.ctx, ast.Load):
+            v = m.peek(node.value, st)
+            if not self.dict_obj(v):
+                return None
+            outs = []
+            for kd, k, s in m.eval(node.slice, st):
+                outs.append(('val', ('elem', v[2], k), s) if kd == 'val' else (kd, k, s))
+            return outs
+        if t is ast.UnaryOp and isinstance(node.op, ast.Not):
+            outs = []
+            for kd, v, s in m.eval(node.operand, st):
+                if kd != 'val':
+                    outs.append((kd, v, s))
+                    continue
+                if isinstance(v, tuple) and v[0] in ('elem', 'len'):
+                    v = self.emptiness(v if v[0] == 'elem' else v[1], True, s)
+                elif isinstance(v, tuple) and v[0] == 'emp':
+                    v = ('emp', not v[1]) + v[2:]
+                elif isinstance(v, tuple) and v[0] == 'const':
+                    v = ('const', not v[1])
+                elif v is not None:
+                    v = ('not', v)
+                outs.append(('val', v, s))
+            return outs
+        if t is ast.Call and _call_name(node) in ('len', 'bool') and isinstance(node.func, ast.Name) and len(node.args) == 1:
+            outs = []
+            for kd, v, s in m.eval(node.args[0], st):
+                if kd == 'val' and isinstance(v, tuple) and v[0] == 'elem':
+                    v = ('len', v) if node.func.id == 'len' else self.emptiness(v, False, s)
+                elif kd == 'val':
+                    v = None
+                outs.append((kd, v, s))
+            return outs
+        if t is ast.Compare and len(node.ops) == 1:
+            outs = []
+            for kd, vals, s in m.eval_seq([node.left, node.comparators[0]], st):
+                if kd != 'val':
+                    outs.append((kd, vals, s))
+                    continue
+                a, b, op = vals[0], vals[1], node.ops[0]
+                res = None
+                if isinstance(a, tuple) and a[0] == 'len' and isinstance(b, tuple) and b[0] == 'const' and isinstance(b[1], int):
+                    n = b[1]
+                    empty_when = {(ast.Eq, 0): True, (ast.NotEq, 0): False, (ast.Gt, 0): False, (ast.LtE, 0): True, (ast.Lt, 1): True, (ast.GtE, 1): False}
+                    pol = empty_when.get((type(op), n))
+                    if pol is None:
+                        raise _Unknown('comparison of a length')
+                    res = self.emptiness(a[1], pol, s)
+                elif isinstance(a, tuple) and a[0] == 'elem' and isinstance(op, (ast.Eq, ast.NotEq)):
+                    c = node.comparators[0]
+                    if (isinstance(c, ast.Call) and _call_name(c) in ('set', 'frozenset') and not c.args) or (isinstance(c, (ast.Set, ast.Dict, ast.List, ast.Tuple))
+                                                                                                         and not getattr(c, 'elts', getattr(c, 'keys', None))):
+                        res = self.emptiness(a, isinstance(op, ast.Eq), s)
+                    else:
+                        raise _Unknown('comparison of a pending set')
+                elif all(isinstance(x, tuple) and x[0] == 'const' for x in (a, b)):
+                    return None
+                elif any(isinstance(x, tuple) and x[0] in ('elem', 'len', 'emp') for x in (a, b)):
+                    raise _Unknown('comparison of a pending set')
+                outs.append(('val', res, s))
+            return outs
+        return None
+
+    def emptiness(self, elem, polarity, st):
+        return ('emp', polarity, elem[1], elem[2], st.held, len(st.trace), next(_sym_counter))
+
+    def decide(self, m, v, st):
+        if v[0] == 'elem':
+            v = self.emptiness(v, False, st)
+        if v[0] == 'emp':
+            dec = st.data.get('dec', ())
+            for k, b in dec:
+                if k == v[6]:
+                    return [(b == v[1], st)]
+            outs = []
+            for is_empty in (True, False):
+                s = st.fork()
+                s.data['dec'] = dec + ((v[6], is_empty),)
+                s.data['facts'] = s.data.get('facts', ()) + ((v[2], v[3], is_empty, v[4], v[5]),)
+                outs.append((is_empty == v[1], s))
+            m.tick()
+            return outs
+        if v[0] in ('fut', 'elemof', 'len'):
+            return [(True, st)] if v[0] != 'len' else None
+        return None
+
+    def _members(self, st, lst):
+        return tuple(u for l, u in st.data.get('members', ()) if l == lst)
+
+    def call(self, m, node, fval, recv, args, kwargs, st):
+        nm = _call_name(node)
+        if nm in self.site_calls:
+            self.visited.add(id(node))
+        if nm in ('remove', 'discard') and isinstance(recv, tuple) and recv[0] == 'elem':
+            sub, joined = st.data.get('submitted', ()), st.data.get('joined', ())
+            st.ev('remove', id(node), recv[1], recv[2], st.held, tuple(u for u in sub if u not in joined))
+            return [('val', ('const', None), st)]
+        if nm == 'pop' and self.dict_obj(recv) and args:
+            st.ev('pop', id(node), recv[2], args[0], st.held, st.data.get('facts', ()))
+            return [('val', None, st)]
+        if nm == 'submit' and isinstance(recv, tuple) and recv[0] == 'obj' and recv[1] == 'executor' and args and isinstance(args[0], tuple) and args[0][0] == 'fn':
+            u = next(_sym_counter)
+            st.data['submitted'] = st.data.get('submitted', ()) + (u,)
+            st.data['submitted_fns'] = st.data.get('submitted_fns', ()) + (args[0][1],)
+            return [('val', ('fut', u), st)]
+        if nm == 'append' and isinstance(recv, tuple) and recv[0] == 'sym' and args and isinstance(args[0], tuple) and args[0][0] == 'fut':
+            st.data['members'] = st.data.get('members', ()) + ((recv, args[0][1]),)
+            return [('val', ('const', None), st)]
+        if nm in ('result', 'exception') and isinstance(recv, tuple) and recv[0] in ('fut', 'elemof'):
+            add = (recv[1],) if recv[0] == 'fut' else self._members(st, recv[1])
+            st.data['joined'] = st.data.get('joined', ()) + add
+            return [('val', None, st)]
+        if nm == 'as_completed' and args and not kwargs and len(args) == 1:
+            return [('val', args[0], st)]
+        if nm == 'wait' and args and isinstance(args[0], tuple) and args[0][0] == 'sym' and len(args) == 1 and not kwargs:
+            st.data['joined'] = st.data.get('joined', ()) + self._members(st, args[0])
+            return [('val', None, st)]
+        return None
+
+    def delete(self, m, target, st):
+        if isinstance(target, ast.Subscript):
+            v = m.peek(target.value, st)
+            if self.dict_obj(v):
+                r = m.eval(target.slice, st)
+                if len(r) != 1 or r[0][0] != 'val':
+                    raise _Unknown('table key')
+                self.visited.add(id(target))
+                r[0][2].ev('pop', id(target), v[2], r[0][1], r[0][2].held, r[0][2].data.get('facts', ()))
+                return [('next', r[0][2])]
+        return None
+
+    def bind_for(self, m, itervalue, st):
+        if isinstance(itervalue, tuple) and itervalue[0] == 'sym' and self._members(st, itervalue):
+            return ('elemof', itervalue)
+        return None
+
+    def comp(self, m, node, st):
+        if isinstance(node, (ast.ListComp, ast.SetComp, ast.GeneratorExp)) and len(node.generators) == 1 and not node.generators[0].ifs:
+            g = node.generators[0]
+            outs = []
+            for kd, it, s in m.eval(g.iter, st):
+                if kd != 'val':
+                    outs.append((kd, it, s))
+                    continue
+                saved = dict(s.env)
+                m.assign(g.target, self.bind_for(m, it, s), s)
+                for kd2, v, s2 in m.eval(node.elt, s):
+                    s2.env = dict(saved)
+                    if kd2 != 'val':
+                        outs.append((kd2, v, s2))
+                        continue
+                    lst = _fresh()
+                    if isinstance(v, tuple) and v[0] == 'fut':
+                        s2.data['members'] = s2.data.get('members', ()) + ((lst, v[1]),)
+                    outs.append(('val', lst, s2))
+            return outs
+        return None
+
+
+def _loader_facts(funcs, env, loader, writer, notes):
+    """→ (loaderJoinsWritersFirst, removeUnderGlock, popUnderGlock, decisionInsideRemoveBlock)"""
+    dom = _LoaderDom()
+    m, outs = _run(dom, funcs, env, loader)
+    # every removal / pop / join site of the loader (and its helpers) must have been executed on some path
+    static = m.sites(loader, lambda n: isinstance(n, ast.Call) and _call_name(n) in ('remove', 'discard', 'pop'))
+    if any(id(n) not in dom.visited for n in static):
+        raise _Unknown('a removal / pop of the loader is on no analysed path')
+    removes = [e for _, st in outs for e in st.trace if e[0] == 'remove']
+    pops = [e for _, st in outs for e in st.trace if e[0] == 'pop']
+    rm_sites, pop_sites = {e[1] for e in removes}, {e[1] for e in pops}
+
+    def g_of(held):
+        gs = [h for h in held if h[0] == 'G']
+        return gs[-1] if len(gs) == 1 else None
+    rm_g = {g_of(e[4])[1] if g_of(e[4]) else None for e in removes}
+    rm_locked = len(rm_sites) == 1 and len(rm_g) == 1 and None not in rm_g
+    pop_g = {g_of(e[4])[1] if g_of(e[4]) else None for e in pops}
+    pop_locked = len(pop_sites) == 1 and len(pop_g) == 1 and None not in pop_g and (not rm_locked or pop_g == rm_g)
+    joins = bool(removes) and all(e[5] == () for e in removes)
+    submitted = False
+    inside = bool(pops)
+    for sig, st in outs:
+        if sig == 'cut':
+            raise _Unknown('loader path abandoned')
+        first_rm = None
+        for i, e in enumerate(st.trace):
+            if e[0] == 'remove':
+                if first_rm is not None:
+                    inside = False             # two removals on one path
+                first_rm = (i, e)
+                if st.data.get('submitted') and (writer is None or all(f is writer for f in st.data.get('submitted_fns', ()))):
+                    submitted = True
+            if e[0] == 'pop':
+                if first_rm is None or first_rm[0] > i:
+                    inside = False
+                    continue
+                ri, r = first_rm
+                g = g_of(r[4])
+                # the set was seen empty AFTER the removal, while the lock acquired for the removal was still held, for this very file
+                ok = any(f[0] == r[2] and f[1] == r[3] and f[2] is True and g is not None and g in f[3] and f[4] > ri for f in e[5])
+                if not ok or e[3] != r[3]:
+                    inside = False
+        # a path on which the set was seen non-empty must not finalise
+        if any(f[2] is False for f in st.data.get('facts', ())) and any(e[0] == 'pop' for e in st.trace):
+            inside = False
+    joins = joins and submitted
+    return joins, rm_locked, pop_locked, inside
+
+
+# ---------------------------------------------------------------------------------------------------------------- snapshot (static)
+def _bool_term(node, env, nested, queues, futures, depth=0):
+    """loop test of the upload worker → Lean term over `queueEmpty` / `producerDone`; ValueError when it is something else"""
+    if depth > 4:
+        raise ValueError('too deep')
+    rec = lambda x: _bool_term(x, env, nested, queues, futures, depth)      # noqa: E731
     if isinstance(node, ast.BoolOp):
-        op = ' && ' if isinstance(node.op, ast.And) else ' || '
-        return '(' + op.join(_bool_expr(ctx, v) for v in node.values) + ')'
+        return '(' + (' && ' if isinstance(node.op, ast.And) else ' || ').join(rec(v) for v in node.values) + ')'
     if isinstance(node, ast.UnaryOp) and isinstance(node.op, ast.Not):
-        return '(!' + _bool_expr(ctx, node.operand) + ')'
+        return '(!' + rec(node.operand) + ')'
     if isinstance(node, ast.Constant) and isinstance(node.value, bool):
         return 'true' if node.value else 'false'
-    txt = ctx.unparse(node)
-    if txt == 'chunk_queue.empty()':
-        return 'queueEmpty'
-    if txt == 'chunk_producer.done()':
-        return 'producerDone'
-    raise ValueError(txt)
+    if isinstance(node, ast.IfExp):
+        return f'(if {rec(node.test)} then {rec(node.body)} else {rec(node.orelse)})'
+
+    def obj(x):
+        v = env.get(x.id) if isinstance(x, ast.Name) else None
+        return v if isinstance(v, tuple) and v[0] == 'obj' else None
+    if isinstance(node, ast.Call) and isinstance(node.func, ast.Attribute) and not node.args and not node.keywords:
+        o = obj(node.func.value)
+        if o is not None and o[1] == 'queue' and o[2] in queues and node.func.attr == 'empty':
+            return 'queueEmpty'
+        if o is not None and o[1] == 'future' and o[2] in futures and node.func.attr == 'done':
+            return 'producerDone'
+    if isinstance(node, ast.Call) and isinstance(node.func, ast.Name) and isinstance(nested.get(node.func.id), ast.Lambda) \
+            and not node.args and not node.keywords:
+        return _bool_term(nested[node.func.id].body, env, nested, queues, futures, depth + 1)
+    if isinstance(node, ast.Call) and isinstance(node.func, ast.Name) and isinstance(nested.get(node.func.id), _FUNCS) \
+            and not node.args and not node.keywords:
+        fn = nested[node.func.id]
+        body = [st for st in fn.body if not (isinstance(st, ast.Expr) and isinstance(st.value, ast.Constant))]
+        if isinstance(fn, ast.FunctionDef) and len(body) == 1 and isinstance(body[0], ast.Return) and body[0].value is not None \
+                and not (fn.args.args or fn.args.kwonlyargs or fn.args.vararg or fn.args.kwarg or fn.args.posonlyargs):
+            return _bool_term(body[0].value, env, nested, queues, futures, depth + 1)
+    if isinstance(node, ast.Compare) and len(node.ops) == 1 and isinstance(node.comparators[0], ast.Constant) and isinstance(node.comparators[0].value, int):
+        l, n, op = node.left, node.comparators[0].value, type(node.ops[0])
+        if isinstance(l, ast.Call) and isinstance(l.func, ast.Attribute) and l.func.attr == 'qsize' and not l.args:
+            o = obj(l.func.value)
+            if o is not None and o[1] == 'queue' and o[2] in queues:
+                empty_when = {(ast.Eq, 0): True, (ast.NotEq, 0): False, (ast.Gt, 0): False, (ast.LtE, 0): True, (ast.Lt, 1): True, (ast.GtE, 1): False}
+                pol = empty_when.get((op, n))
+                if pol is not None:
+                    return 'queueEmpty' if pol else '(!queueEmpty)'
+    raise ValueError(ast.unparse(node))
 
 
-def _slot_cm(ctx, fn, put_pred):
-    """<slot = …one `_slots.get()` request…, possibly over several statements>; try: yield slot; finally: <put>(slot)"""
-    if fn is None or len(fn.body) < 2:
-        return False
-    pre, t = fn.body[:-1], fn.body[-1]
-    binds = [n for st in pre for n in ast.walk(st) if isinstance(n, ast.Assign) and any(ctx.unparse(x) == 'slot' for x in n.targets)]
-    gets = sum(ctx.unparse(st).count('_slots.get()') for st in pre)
-    puts = sum(ctx.unparse(st).count('put_nowait') for st in pre)
-    yields = [n for st in pre for n in ast.walk(st) if isinstance(n, (ast.Yield, ast.YieldFrom))]
-    if not (len(binds) == 1 and gets == 1 and puts == 0 and not yields):
-        return False
-    if not (isinstance(t, ast.Try) and not t.handlers and not t.orelse and len(t.body) == 1 and len(t.finalbody) == 1):
-        return False
-    return ctx.unparse(t.body[0]) == 'yield slot' and put_pred(ctx.unparse(t.finalbody[0]))
+def _loop_exits(stmts):
+    """`break`s that leave the loop whose body is `stmts`, and `return`s, below `stmts`"""
+    out = []
+
+    def rec(node, in_inner):
+        if isinstance(node, ast.Return) or (isinstance(node, ast.Break) and not in_inner):
+            out.append(node)
+        inner = in_inner or isinstance(node, (ast.For, ast.AsyncFor, ast.While))
+        for ch in ast.iter_child_nodes(node):
+            if not isinstance(ch, _FUNCS + (ast.ClassDef, ast.Lambda)):
+                rec(ch, inner)
+    for st in stmts:
+        rec(st, False)
+    return out
 
 
+def _worker_loop_test(worker):
+    """the condition under which the worker keeps going, as (expression AST, negated?) — `while T: …` or `while True: if C: break; …`
+    (the only way out of the loop); None for anything else"""
+    stmts = worker.body
+    while True:
+        loops = [st for st in stmts if isinstance(st, ast.While)]
+        if len(loops) == 1:
+            break
+        wrappers = [st for st in stmts if isinstance(st, (ast.With, ast.AsyncWith, ast.Try)) and any(isinstance(n, ast.While) for n in _walk_local(st))]
+        if loops or len(wrappers) != 1:
+            return None
+        stmts = wrappers[0].body
+    loop = loops[0]
+    if isinstance(loop.test, ast.Constant):
+        if loop.test.value is not True or loop.orelse:
+            return None
+        body = [st for st in loop.body if not (isinstance(st, ast.Expr) and isinstance(st.value, ast.Call) and _is_logging_call(st.value))]
+        first = body[0] if body else None
+        if not (isinstance(first, ast.If) and not first.orelse and isinstance(first.body[-1], ast.Break)):
+            return None
+        if any(isinstance(n, (ast.Await, ast.Yield, ast.Raise)) for st in first.body for n in _walk_local(st)):
+            return None
+        if len(_loop_exits(first.body)) != 1 or _loop_exits(body[1:]):
+            return None
+        return first.test, True
+    if _loop_exits(loop.body):
+        return None                 # a second way out: the test alone does not say when a worker exits
+    return loop.test, False
+
+
+def _snapshot_roles(snap, env, creators):
+    """→ (producer function, its future's name, called without arguments?, worker functions)"""
+    nested = _nested_defs(snap)
+    prods = []
+    for name, val in creators.items():
+        if _classify(val) != 'future' or not (isinstance(env.get(name), tuple) and env[name][2] == name):
+            continue
+        nm = _call_name(val)
+        fnarg = val.args[1] if nm == 'run_in_executor' and len(val.args) >= 2 else (val.args[0] if nm == 'submit' and val.args else None)
+        extra = len(val.args) - (2 if nm == 'run_in_executor' else 1) + len(val.keywords)
+        if isinstance(fnarg, ast.Name) and isinstance(nested.get(fnarg.id), ast.FunctionDef):
+            prods.append((nested[fnarg.id], name, extra == 0, nm))
+    bound = _bound_names(snap)
+    workers = []
+    gathers = []
+    for n in _body_walk(snap):
+        if isinstance(n, ast.Await) and _call_name(n.value) == 'gather':
+            called = []
+            todo = list(n.value.args)
+            for _ in range(3):
+                nxt = []
+                for a in todo:
+                    for x in ast.walk(a):
+                        if isinstance(x, ast.Call) and isinstance(x.func, ast.Name) and isinstance(nested.get(x.func.id), ast.AsyncFunctionDef):
+                            called.append(nested[x.func.id])
+                        if isinstance(x, ast.Name) and len(bound.get(x.id, [])) == 1 and bound[x.id][0] is not None and x.id not in nested:
+                            nxt.append(bound[x.id][0])
+                todo = nxt
+            if called:
+                gathers.append(n)
+                workers.extend(w for w in called if w not in workers)
+    return prods, workers, gathers
+
+
+def _flatten(stmts, nested, depth=0):
+    """statement list with the calls `helper()` / `await helper()` of argument-less nested helpers (no `return` inside) replaced by
+    the helper's body — so that a handler whose steps were moved into a small function reads like the original"""
+    out = []
+    for st in stmts:
+        v = st.value if isinstance(st, ast.Expr) else None
+        if isinstance(v, ast.Await):
+            v = v.value
+        if isinstance(v, ast.Call) and isinstance(v.func, ast.Name) and v.func.id in nested and not v.args and not v.keywords and depth < 3:
+            fn = nested[v.func.id]
+            if not _is_generator(fn) and not any(isinstance(n, ast.Return) for n in _body_walk(fn)) and not _params(fn) \
+                    and isinstance(fn, ast.AsyncFunctionDef) == isinstance(st.value, ast.Await):
+                out.extend(_flatten(fn.body, nested, depth + 1))
+                continue
+        out.append(st)
+    return out
+
+
+def _abort_protocol(snap, env, gathers, producer_future):
+    """try: await gather(workers) / except <everything>: <flag>.set(); raise / finally: await <producer future>  → flag name | None"""
+    result = []
+
+    def visit(stmts, finals):
+        for st in stmts:
+            if isinstance(st, _FUNCS + (ast.ClassDef,)):
+                continue
+            if isinstance(st, ast.Try):
+                mine = any(n is g for b in st.body for n in _walk_local(b) for g in gathers)
+                if mine:
+                    result.append((st, finals + [st.finalbody]))
+                visit(st.body, finals + [st.finalbody])
+                for h in st.handlers:
+                    visit(h.body, finals)
+                visit(st.orelse, finals + [st.finalbody])
+                visit(st.finalbody, finals)
+            else:
+                for field in ('body', 'orelse'):
+                    sub = getattr(st, field, None)
+                    if isinstance(sub, list) and sub and isinstance(sub[0], ast.stmt):
+                        visit(sub, finals)
+    visit(snap.body, [])
+    # the innermost try around the gather that has a handler
+    cands = [(t, f) for t, f in result if t.handlers]
+    if len(cands) != 1 and not (cands and all(c[0] is cands[0][0] for c in cands)):
+        # several nested trys with handlers around the gather: take the innermost (last visited is innermost)
+        pass
+    if not cands:
+        return None
+    t, finals = cands[-1]
+    if len(t.handlers) != 1:
+        return None
+    h = t.handlers[0]
+    if not (h.type is None or ast.unparse(h.type) == 'BaseException'):
+        return None
+    flag = None
+    hbody = _flatten(h.body, _nested_defs(snap))
+    for st in hbody:
+        if isinstance(st, ast.Expr) and isinstance(st.value, ast.Call) and isinstance(st.value.func, ast.Attribute) and st.value.func.attr == 'set' \
+                and not st.value.args and isinstance(st.value.func.value, ast.Name):
+            v = env.get(st.value.func.value.id)
+            if isinstance(v, tuple) and v[0] == 'obj' and v[1] == 'event':
+                flag = v[2]
+    last = hbody[-1]
+    reraises = isinstance(last, ast.Raise) and (last.exc is None or (isinstance(last.exc, ast.Name) and last.exc.id == h.name)) and last.cause is None
+    escapes = [n for st in hbody[:-1] for n in _walk_local(st) if isinstance(n, (ast.Return, ast.Raise, ast.Break, ast.Continue))]
+    if flag is None or not reraises or escapes:
+        return None
+    awaited = False
+    for fb in finals:
+        for st in _flatten(fb, _nested_defs(snap)):
+            if isinstance(st, ast.Expr) and isinstance(st.value, ast.Await) and isinstance(st.value.value, ast.Name):
+                v = env.get(st.value.value.id)
+                if isinstance(v, tuple) and v[0] == 'obj' and v[1] == 'future' and v[2] == producer_future:
+                    awaited = True
+    return flag if awaited else None
+
+
+# ---------------------------------------------------------------------------------------------------------------- restore (static)
+def _restore_roles(rest, env, creators):
+    """→ (loader function, loader executor name, writer function, name of the list of loader futures gathered)"""
+    nested = _nested_defs(rest)
+    loader = lexec = None
+    for n in _body_walk(rest):
+        if isinstance(n, ast.Call) and _call_name(n) in ('run_in_executor', 'submit'):
+            nm = _call_name(n)
+            fnarg = n.args[1] if nm == 'run_in_executor' and len(n.args) >= 2 else (n.args[0] if nm == 'submit' and n.args else None)
+            ex = n.args[0] if nm == 'run_in_executor' and n.args else (n.func.value if isinstance(n.func, ast.Attribute) else None)
+            if isinstance(fnarg, ast.Name) and isinstance(nested.get(fnarg.id), ast.FunctionDef):
+                if loader is not None and nested[fnarg.id] is not loader:
+                    return None, None, None
+                loader = nested[fnarg.id]
+                v = env.get(ex.id) if isinstance(ex, ast.Name) else None
+                lexec = v[2] if isinstance(v, tuple) and v[0] == 'obj' and v[1] == 'executor' else None
+    writer = None
+    if loader is not None:
+        probe = _Machine(_Dom(), {k: ('fn', d, False) for k, d in nested.items()})
+        for n in probe.sites(loader, lambda x: isinstance(x, ast.Call) and _call_name(x) == 'submit'):
+            if n.args and isinstance(n.args[0], ast.Name) and isinstance(nested.get(n.args[0].id), ast.FunctionDef):
+                if writer is not None and nested[n.args[0].id] is not writer:
+                    return loader, lexec, None
+                writer = nested[n.args[0].id]
+    return loader, lexec, writer
+
+
+def _joins_loaders_on_failure(rest, env, lexec):
+    """try: await gather(loader futures) / except BaseException: <loader executor>.shutdown(wait=False, cancel_futures=True);
+    await gather(…, return_exceptions=True) [or asyncio.wait(…)]; raise"""
+    def const(node):
+        if isinstance(node, ast.Constant):
+            return node.value
+        if isinstance(node, ast.Name) and isinstance(env.get(node.id), tuple) and env[node.id][0] == 'const':
+            return env[node.id][1]
+        return '?'
+    for n in _body_walk(rest):
+        if not (isinstance(n, ast.Try) and any(isinstance(x, ast.Await) and _call_name(x.value) == 'gather' for b in n.body for x in _walk_local(b))):
+            continue
+        for i, h in enumerate(n.handlers):
+            if not (h.type is None or ast.unparse(h.type) in ('BaseException', 'Exception')):
+                continue
+            if any(ast.unparse(p.type) in ('BaseException', 'Exception') if p.type is not None else True for p in n.handlers[:i]):
+                continue
+            sh = wt = rs = None
+            hbody = _flatten(h.body, _nested_defs(rest))
+            for k, st in enumerate(hbody):
+                v = st.value if isinstance(st, ast.Expr) else None
+                if isinstance(v, ast.Call) and _call_name(v) == 'shutdown' and isinstance(v.func, ast.Attribute) and isinstance(v.func.value, ast.Name):
+                    o = env.get(v.func.value.id)
+                    kw = {x.arg: const(x.value) for x in v.keywords}
+                    if len(v.args) >= 1:
+                        kw.setdefault('wait', const(v.args[0]))
+                    if isinstance(o, tuple) and o[0] == 'obj' and o[1] == 'executor' and o[2] == lexec and kw.get('cancel_futures') is True and kw.get('wait') is False:
+                        sh = k if sh is None else sh
+                if isinstance(v, ast.Await) and isinstance(v.value, ast.Call):
+                    c = v.value
+                    kw = {x.arg: const(x.value) for x in c.keywords}
+                    if (_call_name(c) == 'gather' and kw.get('return_exceptions') is True) or (_call_name(c) == 'wait' and 'timeout' not in kw and len(c.args) == 1):
+                        wt = k if wt is None else wt
+                if isinstance(st, ast.Raise) and k == len(hbody) - 1 and st.cause is None \
+                        and (st.exc is None or (isinstance(st.exc, ast.Name) and st.exc.id == h.name)):
+                    rs = k
+            early = [x for st in hbody[:-1] for x in _walk_local(st) if isinstance(x, (ast.Return, ast.Raise, ast.Break, ast.Continue))]
+            if None not in (sh, wt, rs) and sh < wt < rs and not early:
+                return True
+    return False
+
+
+# ---------------------------------------------------------------------------------------------------------------- finite waits
 _WAIT_NAMES = {'result', 'exception', 'get', 'put', 'wait', 'wait_for', 'acquire', 'join', 'as_completed', 'timeout', 'timeout_at'}
 _TIMEOUT_EXCS = {'TimeoutError', 'concurrent.futures.TimeoutError', 'futures.TimeoutError', 'asyncio.TimeoutError', 'queue.Full', 'queue.Empty',
                  'Full', 'Empty'}
@@ -165,289 +2441,176 @@ def _lean_str(s):
     return '"' + ''.join(c if (32 <= ord(c) < 127 and c not in '"\\') else '?' for c in s) + '"'
 
 
-def _under_slot(ctx, fn, call_txt):
-    """is the (only) backend call `call_txt` of `fn` lexically inside a `with self._acquire_slot…`?"""
-    found = []
 
-    def walk(node, inside):
-        for ch in ast.iter_child_nodes(node):
-            ins = inside
-            if isinstance(ch, (ast.With, ast.AsyncWith)) and any('self._acquire_slot' in ctx.unparse(i.context_expr) for i in ch.items):
-                ins = True
-            if isinstance(ch, ast.Attribute) and ctx.unparse(ch) == call_txt:
-                found.append(inside)
-            walk(ch, ins)
-    if fn is None:
-        return False
-    walk(fn, False)
-    return bool(found) and all(found)
+# ---------------------------------------------------------------------------------------------------------------- the section
+def _b(x):
+    return 'true' if x else 'false'
 
 
-def _is_abort_return(ctx, st):
-    """`if abort.is_set(): …; return`"""
-    return (isinstance(st, ast.If) and ctx.unparse(st.test) == 'abort.is_set()' and st.body and isinstance(st.body[-1], ast.Return)
-            and not st.orelse)
-
-
-def _queue_put(ctx, node):
-    """→ None | 'blocking' | 'bounded' for a call node that queues the chunk"""
-    if not (isinstance(node, ast.Call) and isinstance(node.func, ast.Attribute) and ctx.unparse(node.func.value) == 'chunk_queue'):
-        return None
-    if node.func.attr == 'put_nowait':
-        return 'bounded'
-    if node.func.attr != 'put':
-        return None
-    kw = {k.arg: k.value for k in node.keywords}
-    block = kw.get('block', node.args[1] if len(node.args) > 1 else None)
-    timeout = kw.get('timeout', node.args[2] if len(node.args) > 2 else None)
-    if isinstance(block, ast.Constant) and block.value is False:
-        return 'bounded'
-    if timeout is not None and not (isinstance(timeout, ast.Constant) and timeout.value is None):
-        return 'bounded'        # (a name such as `queue_timeout`: its default is a positive number, checked below)
-    return 'blocking'
-
-
-def _producer_abort_shape(ctx, prod):
-    """(tests the abort flag before queuing a chunk?, is the put a loop of bounded attempts that re-tests the flag?)"""
-    if prod is None:
-        return False, False
-    puts = [n for n in ast.walk(prod) if _queue_put(ctx, n) is not None]
-    if len(puts) != 1:
-        return False, False
-    kind = _queue_put(ctx, puts[0])
-    # a timeout given by a parameter of the producer must default to a number (None would block)
-    for k in puts[0].keywords:
-        if k.arg == 'timeout' and isinstance(k.value, ast.Name):
-            names = [a.arg for a in prod.args.args]
-            dflt = dict(zip(names[len(names) - len(prod.args.defaults):], prod.args.defaults)).get(k.value.id)
-            if not (isinstance(dflt, ast.Constant) and isinstance(dflt.value, (int, float)) and not isinstance(dflt.value, bool) and dflt.value >= 0):
-                kind = 'blocking'
-    # the chain of statement lists from the per-chunk `for` loop down to the put
-    loops = [n for n in prod.body if isinstance(n, ast.For)]
-    if len(loops) != 1:
-        return False, False
-
-    def path_to(stmts, target):
-        for i, st in enumerate(stmts):
-            if any(x is target for x in ast.walk(st)):
-                for field in ('body', 'orelse', 'finalbody'):
-                    sub = getattr(st, field, None)
-                    if isinstance(sub, list) and any(any(x is target for x in ast.walk(y)) for y in sub if isinstance(y, ast.AST)):
-                        return [(stmts, i, st)] + path_to(sub, target)
-                for h in getattr(st, 'handlers', []):
-                    if any(x is target for x in ast.walk(h)):
-                        return [(stmts, i, st)] + path_to(h.body, target)
-                return [(stmts, i, st)]
-        return []
-    path = path_to(loops[0].body, puts[0])
-    if not path:
-        return False, False
-    # (a) an abort test precedes the put on the way down (same statement list, earlier position)
-    stops = any(_is_abort_return(ctx, prev) for stmts, i, _ in path for prev in stmts[:i])
-    # (b) the innermost enclosing `while True:` re-tests the flag before each bounded attempt, swallows Full and leaves on success
-    rechecks = False
-    for depth, (stmts, i, st) in enumerate(path):
-        if isinstance(st, ast.While) and ctx.unparse(st.test) == 'True' and not st.orelse and depth + 1 < len(path):
-            body, j, inner = path[depth + 1]
-            test_first = any(_is_abort_return(ctx, prev) for prev in body[:j])
-            if isinstance(inner, ast.Try) and not inner.finalbody and any(x is puts[0] for y in inner.body for x in ast.walk(y)):
-                full = [h for h in inner.handlers if h.type is not None and ctx.unparse(h.type) in ('queue.Full', 'Full')]
-                # `queue.Full` is swallowed: the handler neither leaves the loop nor the function (pass / continue / a sleep / a log line)
-                swallowed = (len(inner.handlers) == 1 and len(full) == 1
-                             and not any(isinstance(x, (ast.Return, ast.Raise, ast.Break)) for y in full[0].body for x in ast.walk(y)))
-                leaves = len(inner.orelse) == 1 and isinstance(inner.orelse[0], ast.Break)
-                leaves = leaves or (len(inner.body) >= 2 and isinstance(inner.body[-1], ast.Break))
-                rechecks = kind == 'bounded' and test_first and swallowed and leaves
-    return stops, stops and rechecks
+def _guard(notes, key, default, thunk):
+    """run one analysis; anything it does not understand (or a bug in it) yields `default` and a note — never a guess"""
+    try:
+        return thunk()
+    except _Unknown as e:
+        notes[key] = f'not recognised: {e}'
+    except RecursionError:
+        notes[key] = 'not recognised: recursion limit'
+    except Exception as e:  # noqa: BLE001
+        notes[key] = f'analysis failed: {type(e).__name__}: {e}'
+    return default
 
 
 def section(ctx):
     src = (ctx.REPO / 'replicat' / 'repository.py').read_text()
     tree = ast.parse(src)
     emit, notes, un = ctx.emit, ctx.notes, ctx.unparse
+    cls = _class_of(tree, 'Repository')
 
     # ---- slots
-    init = ctx.find_func(tree, 'Repository', '__init__')
-    base = None
-    count_ok = False
-    hi_txt = None
-    for n in ast.walk(init) if init is not None else []:
-        if isinstance(n, ast.For) and un(n.target) == 'slot' and isinstance(n.iter, ast.Call) and un(n.iter.func) == 'range' and len(n.iter.args) == 2:
-            lo, hi = n.iter.args
-            if isinstance(lo, ast.Constant) and isinstance(lo.value, int):
-                base = lo.value
-                hi_txt = un(hi)
-                count_ok = un(hi) in (f'concurrent + {base}', f'{base} + concurrent') and un(n.body[0]) == 'self._slots.put_nowait(slot)'
+    fill = _guard(notes, 'sched.slot_fill', None, lambda: _slot_fill(tree, cls, notes)) if cls is not None else None
+    q = fill[0] if fill else None
+    base = fill[1] if fill else None
+    count = fill[2] if fill else None
     emit(f'def slotBase : Nat := {base}' if base is not None else 'opaque slotBase : Nat')
-    emit(f'def slotCountIsConcurrent : Bool := {"true" if count_ok else "false"}')
+    emit(f'def slotCountIsConcurrent : Bool := {_b(count == (1, 0))}')
     # number of slots put into the queue, as a function of `concurrent` (hi - lo of the range)
     cnt = None
-    if base is not None and hi_txt is not None:
-        try:
-            cnt = '(' + ctx.translate(hi_txt, {'concurrent': ('concurrent', 'nat')}, 'nat') + f') - {base}'
-        except Exception as e:  # noqa: BLE001
-            notes['sched.slot_count'] = f'not translatable: {hi_txt!r}: {e}'
+    if count is not None and count[0] >= 0 and count[1] + base >= 0:
+        hi = 'concurrent' if count[0] == 1 else f'{count[0]} * concurrent'
+        cnt = f'(({hi} + {count[1] + base})) - {base}'
+    elif count is not None:
+        notes['sched.slot_count'] = f'not expressible over Nat: {count}'
     emit(f'def slotCount (concurrent : Nat) : Nat := {cnt}' if cnt is not None else 'opaque slotCount : Nat → Nat')
-    a1 = ctx.find_func(tree, 'Repository', '_acquire_slot')
-    a2 = ctx.find_func(tree, 'Repository', '_acquire_slot_threadsafe')
-    ctx.fp('repository._acquire_slot', a1)
-    ctx.fp('repository._acquire_slot_threadsafe', a2)
-    fin = _slot_cm(ctx, a1, lambda s: s == 'self._slots.put_nowait(slot)') and \
-        _slot_cm(ctx, a2, lambda s: s == 'loop.call_soon_threadsafe(self._slots.put_nowait, slot)')
-    emit(f'def slotReleaseInFinally : Bool := {"true" if fin else "false"}')
+    # the slot managers: every method that takes something out of the slot queue
+    cms = []
+    users = []
+    for st in cls.body if (cls is not None and q) else []:
+        if isinstance(st, _FUNCS) and st.name != '__init__' and any(_self_attr(n) == q for n in ast.walk(st)):
+            users.append(st)
+    fin = bool(users) and all(_guard(notes, 'sched.slot_cm', False, lambda f=f: _slot_cm(f, q)) for f in users)
+    cms = [f.name for f in users]
+    for f in users:
+        ctx.fp('repository.' + ('_acquire_slot' if isinstance(f, ast.AsyncFunctionDef) else '_acquire_slot_threadsafe'), f)
+    if fin and not (any(isinstance(f, ast.AsyncFunctionDef) for f in users) and any(isinstance(f, ast.FunctionDef) for f in users)):
+        fin = False         # the model has the coroutine variant and the thread variant
+    emit(f'def slotReleaseInFinally : Bool := {_b(fin)}')
     if not fin:
-        notes['sched.slot_cm'] = 'slot context managers: acquire / try-yield / finally-release shape not recognised'
+        notes['sched.slot_cm'] = notes.get('sched.slot_cm', 'slot context managers: request / try-yield / finally-give-back shape not recognised')
     # ---- finite waits: does anything give up after a while?
     bounded, tmo_ms, unmodelled = False, 0, []
     for funcs, call, t, retried in _timed_waits(ctx, tree):
         if retried:
             continue
         where = '.'.join(funcs) or '<module>'
-        if funcs and funcs[-1] in ('_acquire_slot', '_acquire_slot_threadsafe'):
-            v = _number(ctx, tree, [x for x in (a1, a2) if x is not None and x.name == funcs[-1]], t)
+        if funcs and funcs[-1] in cms:
+            v = _number(ctx, tree, [x for x in users if x.name == funcs[-1]], t)
             if not bounded:
                 tmo_ms = int(round(v * 1000)) if v is not None and v >= 0 else 0
             bounded = True
             notes[f'sched.slot_wait.{funcs[-1]}'] = f'the slot request gives up after {un(t)} (= {v}) seconds: {un(call)[:80]}'
         else:
             unmodelled.append(f'{where}: {un(call)[:70]}')
-    emit(f'def slotWaitBounded : Bool := {"true" if bounded else "false"}')
+    emit(f'def slotWaitBounded : Bool := {_b(bounded)}')
     emit(f'def slotWaitTimeoutMs : Nat := {tmo_ms}')
     emit('def unmodelledTimedWaits : List String := [' + ', '.join(_lean_str(x) for x in unmodelled) + ']')
     if unmodelled:
         notes['sched.timed_waits'] = 'finite waits that are not retried and have no transition in the model: ' + '; '.join(unmodelled)[:300]
-    under = True
-    for nm, call in (('_exists', 'self.backend.exists'), ('_download', 'self.backend.download'), ('_upload_data', 'self.backend.upload'),
-                     ('_delete', 'self.backend.delete')):
-        for suffix in ('', '_threadsafe'):
-            ok = _under_slot(ctx, ctx.find_func(tree, 'Repository', nm + suffix), call)
-            under = under and ok
-            if not ok:
-                notes[f'sched.under_slot.{nm}{suffix}'] = f'{call} is not inside `with self._acquire_slot…`'
-    snap = ctx.find_func(tree, 'Repository', 'snapshot')
-    worker = ctx.find_func(tree, 'Repository', 'snapshot', '_worker')
-    rest = ctx.find_func(tree, 'Repository', 'restore')
-    dc = ctx.find_func(tree, 'Repository', 'restore', '_download_chunk')
-    under = under and _under_slot(ctx, worker, 'self.backend.upload_stream') and _under_slot(ctx, dc, 'self.backend.download_stream')
-    emit(f'def transfersUnderSlot : Bool := {"true" if under else "false"}')
+    under = bool(cms) and _guard(notes, 'sched.under_slot', False, lambda: _transfers_under_slot(cls, cms, notes))
+    emit(f'def transfersUnderSlot : Bool := {_b(under)}')
 
     # ---- snapshot: worker loop test, abort protocol
-    ctx.fp('repository.snapshot._worker', worker)
-    test = None
-    if worker is not None:
-        loops = [n for n in worker.body if isinstance(n, ast.While)]
-        if len(loops) == 1:
-            test = loops[0].test
-    try:
-        term = _bool_expr(ctx, test) if test is not None else None
-    except ValueError as e:
-        term = None
-        notes['sched.worker_test'] = f'loop test not translatable: {e}'
+    snap = _method(cls, 'snapshot')
+    term = None
+    abort_ok = stops = rechecks = False
+    if snap is not None:
+        funcs, env, creators = _seed(tree, cls, [snap])
+        prods, workers, gathers = _snapshot_roles(snap, env, creators)
+        prod = prods[0] if len(prods) == 1 else None
+        if prod is None:
+            notes['sched.snapshot'] = f'{len(prods)} functions handed to an executor in snapshot (1 expected)'
+        worker = workers[0] if len(workers) == 1 else None
+        ctx.fp('repository.snapshot._worker', worker)
+        ctx.fp('repository.snapshot._chunk_producer', prod[0] if prod else None)
+        flag = _guard(notes, 'sched.abort', None, lambda: _abort_protocol(snap, env, gathers, prod[1])) if (prod and gathers) else None
+        abort_ok = flag is not None
+        events = [flag] if flag else []
+        if not events:
+            # the failure handler was not recognised: the producer is still analysed against the only Event object of snapshot
+            evs = sorted({v[2] for v in env.values() if isinstance(v, tuple) and v[0] == 'obj' and v[1] == 'event'})
+            events = evs if len(evs) == 1 else []
+        queues = set()
+        if prod is not None and not prod[2]:
+            notes['sched.producer'] = 'the producer is started with arguments'
+        elif prod is not None:
+            # (without an identified flag nothing counts as an abort test: both facts come out false; the queue is still identified)
+            stops, rechecks, queues = _guard(notes, 'sched.producer', (False, False, set()), lambda: _producer_facts(funcs, env, prod[0], events, notes))
+        if worker is not None and prod is not None and len(queues) == 1:
+            lt = _worker_loop_test(worker)
+            if lt is None:
+                notes['sched.worker_test'] = 'the worker has no single loop whose test says when it exits'
+            else:
+                try:
+                    wenv = dict(env)
+                    for nm in _bound_names(worker):
+                        wenv.pop(nm, None)
+                    for nm in _params(worker):
+                        wenv.pop(nm, None)
+                    nested = dict(_nested_defs(snap))
+                    nested.update(_nested_defs(worker))
+                    for f in (snap, worker):         # argument-less lambdas bound once
+                        for nm, vals in _bound_names(f).items():
+                            if len(vals) == 1 and isinstance(vals[0], ast.Lambda) and not _params(vals[0]) and nm not in nested:
+                                nested[nm] = vals[0]
+                                wenv.pop(nm, None)
+                    term = _bool_term(lt[0], wenv, nested, queues, {prod[1]})
+                    if lt[1]:
+                        term = '(!' + term + ')'
+                except ValueError as e:
+                    notes['sched.worker_test'] = f'loop test not translatable: {e}'
+        elif 'sched.worker_test' not in notes:
+            notes['sched.worker_test'] = 'worker / producer / chunk queue of snapshot not identified'
     if term is not None:
         emit(f'def workerContinues (queueEmpty producerDone : Bool) : Bool := {term}')
     else:
         emit('opaque workerContinues : Bool → Bool → Bool')
-    abort_ok = False
-    for n in ast.walk(snap) if snap is not None else []:
-        if isinstance(n, ast.Try) and len(n.body) == 1 and 'asyncio.gather(*(_worker() for _ in range(self._concurrent)))' in un(n.body[0]):
-            h = n.handlers
-            abort_ok = (len(h) == 1 and h[0].type is None and [un(x) for x in h[0].body] == ['abort.set()', 'raise']
-                        and [un(x) for x in n.finalbody] == ['await chunk_producer'])
-    emit(f'def abortOnWorkerFailure : Bool := {"true" if abort_ok else "false"}')
-    prod = ctx.find_func(tree, 'Repository', 'snapshot', '_chunk_producer')
-    ctx.fp('repository.snapshot._chunk_producer', prod)
-    stops, rechecks = _producer_abort_shape(ctx, prod)
-    emit(f'def producerStopsOnAbort : Bool := {"true" if stops else "false"}')
-    emit(f'def producerRechecksWhileFull : Bool := {"true" if rechecks else "false"}')
+    emit(f'def abortOnWorkerFailure : Bool := {_b(abort_ok)}')
+    emit(f'def producerStopsOnAbort : Bool := {_b(stops)}')
+    emit(f'def producerRechecksWhileFull : Bool := {_b(rechecks)}')
     if not stops:
-        notes['sched.producer_abort'] = '_chunk_producer: no `if abort.is_set(): … return` before the chunk is queued'
+        notes.setdefault('sched.producer_abort', 'chunk producer: the abort flag is not tested (clear) before every attempt to queue a chunk, or a set flag does not end the producer')
     elif not rechecks:
-        notes['sched.producer_put'] = '_chunk_producer: the put is not a loop of timed attempts that re-tests the abort flag'
+        notes.setdefault('sched.producer_put', 'chunk producer: the put is not a loop of bounded attempts that re-tests the abort flag')
 
-    # ---- restore: per-file write locks
-    wr = ctx.find_func(tree, 'Repository', 'restore', '_write_chunk_ref')
-    ctx.fp('repository.restore._write_chunk_ref', wr)
-    shape = False
-    at_zero = False
-    if wr is not None:
-        withs = [n for n in wr.body if isinstance(n, ast.With)]
-        if len(withs) == 3 and [un(w.items[0].context_expr) for w in withs] == ['glock', 'flock', 'glock']:
-            w1, w2, w3 = withs
-            t = w1.body[0] if len(w1.body) == 1 else None
-            reg = (isinstance(t, ast.Try) and [un(x) for x in t.body] == ['flock = flocks[restore_to]']
-                   and len(t.handlers) == 1 and un(t.handlers[0].type) == 'KeyError'
-                   and [un(x) for x in t.handlers[0].body] == ['flock = flocks[restore_to] = threading.Lock()', 'flocks_refcounts[restore_to] = 1']
-                   and [un(x) for x in t.orelse] == ['flocks_refcounts[restore_to] += 1'])
-            crit = len(w2.body) == 1 and un(w2.body[0]).startswith('self._write_file_part(restore_to,')
-            s3 = [un(x) for x in w3.body]
-            dec = 'flocks_refcounts[restore_to] -= 1' in s3
-            dels = [x for x in ast.walk(w3) if isinstance(x, ast.Delete)]
-            del_ok = len(dels) == 1 and sorted(un(t) for t in dels[0].targets) == ['flocks[restore_to]', 'flocks_refcounts[restore_to]']
-            guarded = [x for x in w3.body if isinstance(x, ast.If) and un(x.test) == 'not flocks_refcounts[restore_to]'
-                       and any(isinstance(y, ast.Delete) for y in x.body)]
-            unguarded = [x for x in w3.body if isinstance(x, ast.Delete)]
-            shape = bool(reg and crit and dec and del_ok and (guarded or unguarded))
-            at_zero = bool(shape and guarded and not unguarded
-                           and s3.index('flocks_refcounts[restore_to] -= 1') < w3.body.index(guarded[0]))
-    emit(f'def flockShapeRecognised : Bool := {"true" if shape else "false"}')
-    emit(f'def flockDelAtZero : Bool := {"true" if at_zero else "false"}')
+    # ---- restore: per-file write locks, loader protocol
+    rest = _method(cls, 'restore')
+    shape = at_zero = joins = rm_locked = pop_locked = inside = joins_fail = False
+    if rest is not None:
+        funcs, env, creators = _seed(tree, cls, [rest])
+        loader, lexec, writer = _restore_roles(rest, env, creators)
+        ctx.fp('repository.restore._write_chunk_ref', writer)
+        if writer is not None:
+            shape, at_zero = _guard(notes, 'sched.flock', (False, False), lambda: _flock_facts(funcs, env, creators, writer, notes))
+        if loader is not None:
+            joins, rm_locked, pop_locked, inside = _guard(notes, 'sched.loader', (False, False, False, False),
+                                                          lambda: _loader_facts(funcs, env, loader, writer, notes))
+            joins_fail = _guard(notes, 'sched.loader_failure', False, lambda: _joins_loaders_on_failure(rest, env, lexec))
+        else:
+            notes['sched.loader'] = 'restore: no nested function handed to an executor'
+    emit(f'def flockShapeRecognised : Bool := {_b(shape)}')
+    emit(f'def flockDelAtZero : Bool := {_b(at_zero)}')
     if not shape:
-        notes['sched.flock'] = '_write_chunk_ref: register / write / unregister shape not recognised'
-
-    # ---- restore: loader protocol
-    joins = False
-    rm_locked = False
-    pop_locked = False
-    if dc is not None:
-        idx_join = idx_fin = None
-        for i, n in enumerate(dc.body):
-            if isinstance(n, ast.For) and un(n.iter) == 'concurrent.futures.as_completed(writer_futures)' and [un(x) for x in n.body] == ['future.result()']:
-                idx_join = i
-            if isinstance(n, ast.For) and un(n.iter) == 'referenced_paths' and idx_fin is None:
-                idx_fin = i
-        joins = idx_join is not None and idx_fin is not None and idx_join < idx_fin
-        for n in ast.walk(dc):
-            if isinstance(n, ast.With) and un(n.items[0].context_expr) == 'glock':
-                st = [un(x) for x in n.body]
-                if 'digests.remove(digest)' in st:
-                    rm_locked = True
-                if any('files_metadata.pop(file_path)' in x for x in st):
-                    pop_locked = True
-        # a remove / pop outside any glock block would be a different shape
-        all_rm = [n for n in ast.walk(dc) if isinstance(n, ast.Expr) and un(n) == 'digests.remove(digest)']
-        all_pop = [n for n in ast.walk(dc) if isinstance(n, ast.Assign) and 'files_metadata.pop(file_path)' in un(n.value)]
-        rm_locked = rm_locked and len(all_rm) == 1
-        pop_locked = pop_locked and len(all_pop) == 1
-    # the variable tested by `if <var>:` before the pop is assigned inside the very `with glock:` block that removes the digest
-    inside = False
-    if dc is not None:
-        for n in ast.walk(dc):
-            if isinstance(n, ast.For) and un(n.iter) == 'referenced_paths':
-                body = n.body
-                for i, st in enumerate(body):
-                    if isinstance(st, ast.If) and any('files_metadata.pop(file_path)' in un(x) for x in ast.walk(st) if isinstance(x, ast.Assign)):
-                        var = un(st.test)
-                        prev = [b for b in body[:i] if isinstance(b, ast.With) and un(b.items[0].context_expr) == 'glock']
-                        if prev and isinstance(st.test, ast.Name):
-                            stmts = [un(x) for x in prev[-1].body]
-                            inside = ('digests.remove(digest)' in stmts and any(x.startswith(var + ' = ') for x in stmts)
-                                      and stmts.index('digests.remove(digest)') < [k for k, x in enumerate(stmts) if x.startswith(var + ' = ')][0]
-                                      and not any(isinstance(b, ast.Assign) and un(b.targets[0]) == var for b in body[:i]))
-    emit(f'def decisionInsideRemoveBlock : Bool := {"true" if inside else "false"}')
-    # after a failed download the operation must not return while loader threads still need the event loop:
-    # try: await gather(futures) / except: loader.shutdown(cancel_futures=True); await gather(..., return_exceptions=True); raise
-    joins_fail = False
-    for n in ast.walk(rest) if rest is not None else []:
-        if isinstance(n, ast.Try) and any('asyncio.gather' in un(x) for x in n.body):
-            for h in n.handlers:
-                txt = [un(x) for x in h.body]
-                sh = [k for k, x in enumerate(txt) if x.startswith('loader.shutdown(') and 'cancel_futures=True' in x and 'wait=False' in x]
-                wt = [k for k, x in enumerate(txt) if x.startswith('await asyncio.gather(') and 'return_exceptions=True' in x]
-                rs = [k for k, x in enumerate(txt) if x == 'raise']
-                if h.type is None or un(h.type) in ('BaseException', 'Exception'):
-                    joins_fail = joins_fail or bool(sh and wt and rs and sh[0] < wt[0] < rs[0])
-    emit(f'def restoreJoinsLoadersOnFailure : Bool := {"true" if joins_fail else "false"}')
-    emit(f'def loaderJoinsWritersFirst : Bool := {"true" if joins else "false"}')
-    emit(f'def removeUnderGlock : Bool := {"true" if rm_locked else "false"}')
-    emit(f'def popUnderGlock : Bool := {"true" if pop_locked else "false"}')
+        notes.setdefault('sched.flock', 'writer: register / write / unregister protocol of the per-file locks not recognised')
+    emit(f'def decisionInsideRemoveBlock : Bool := {_b(inside)}')
+    emit(f'def restoreJoinsLoadersOnFailure : Bool := {_b(joins_fail)}')
+    emit(f'def loaderJoinsWritersFirst : Bool := {_b(joins)}')
+    emit(f'def removeUnderGlock : Bool := {_b(rm_locked)}')
+    emit(f'def popUnderGlock : Bool := {_b(pop_locked)}')
     ctx.fp('repository.restore', rest)
+    # the names behind the roles, for whoever instruments the implementation (evidence: extract_notes['sched.roles'])
+    roles = {'slot_queue': q, 'slot_managers': cms}
+    if snap is not None:
+        roles.update(producer=prod[0].name if prod else None, producer_future=prod[1] if prod else None, worker=worker.name if worker else None,
+                     abort_flag=(events[0] if events else None), chunk_queue=sorted(queues))
+    if rest is not None:
+        roles.update(loader=loader.name if loader else None, writer=writer.name if writer else None, loader_executor=lexec)
+    notes['sched.roles'] = ', '.join(f'{k}={v}' for k, v in roles.items())
